@@ -1,346 +1,1728 @@
-"""C19 history, hash seed and configuration independence (structural clauses)."""
+"""C19 history, hash seed and configuration independence."""
 from __future__ import annotations
 
 import ast
 
-from ..model import (AnalysisError, U, Defs, FuncNode, calls_in, call_name, walk_fn, kwarg, enclosing,
-                     enclosing_stmt, parents, short)
-from ..pathcond import conditions
+from ..model import (AnalysisError, U, Defs, FuncNode, call_name, walk_fn, kwarg, enclosing,
+                     enclosing_stmt, parents, short, fn_of, always_exits as common_always_exits)
+from ..symex import Symex, Obj, ClassRef, Ext, Func, Raised, _freeze
+from ..terms import T, sym, show, subterms, calls, strip, expand_products, args_of, t_cmp, t_not
 from . import common
 from . import c08
+from . import dx
 from .deriv import reaching_assignments
 
 EXPLANATION = (
-    "R19a: no hash()/id() inside any function used as a sort key; every iteration over a set (set(...), "
-    "set displays, .atoms(...), set operators) is followed to its consumers: membership/any/all/len/"
-    "sum/sorted/set/dict-keyed stores/commutative Add/Mul/same-origin zip are order-insensitive, "
-    "anything else must be a frozen, reasoned exception, otherwise it is reported. R19g: the canonical "
-    "sort key starts with space, spin, number and letter of the name before any tie-break. R19b (=D4): "
-    "wavefunctions, overlaps and norm factors are uncached and draw their summation indices from "
-    "get_generic_indices; cached derivation methods request named indices only for the caller-supplied "
-    "target strings; multiplicative accumulation of a method in a loop only for the uncached methods "
-    "(+ the frozen s_root case whose index argument advances). R19c: no literal equal to a TensorNames "
-    "default reaches a tensor constructor name or a comparison with .name. R19d: TensorNames is a "
-    "frozen, slotted singleton built once from the JSON file; no attribute store on it. R19e: index "
-    "registry ownership and pairing (R08c/R08d). R19f: values handed out by cached_member/"
-    "cached_property whose return expression is a mutable container are never mutated by a caller.")
+    "R19g: sort_idx_canonical is evaluated (sa.symex) for a sample of 63 indices (occ/virt/general names with and without "
+    "number, three spins); every pair with different (space, spin, number, letter) must be ordered by that tuple before the "
+    "tie-break is reached, and the evaluated key contains no hash()/id(). R19a(1): every call that passes a sort key (key= "
+    "keyword of any callee, positional arguments bound to a parameter `key` of a repository function) is resolved to the "
+    "function bodies the key may denote (lambdas, local bindings, nested/module/imported functions, partial-style wrappers); "
+    "the call-graph closure of those bodies over the repository must not reach hash()/id()/__hash__. R19a(2): order taint - "
+    "every ordered read of an unordered collection (set displays/comprehensions, set()/frozenset(), .atoms()/set algebra, "
+    "names/parameters/functions that evaluate to one, dicts filled per element of one) by a loop, comprehension, list()/"
+    "tuple()/join/unpacking/pop()/next(iter()) is followed through names, containers, derived sequences and nested loops to "
+    "its consumers: membership, any/all/len/sum/min/max/sorted/set/Counter, Add/Mul, set.add/update, keyed stores, commutative "
+    "accumulation, diagnostics and pop() of a set established to have one element end the taint; return/yield, indexing, "
+    "arguments of other functions, per-element effects, order-sensitive comparison are sinks and reported unless the site is a "
+    "frozen, reasoned exception keyed by function and origin vocabulary of the set. R19b: every derivation function "
+    "(ground state, intermediate states, secular matrix, properties, Operators.operator) is evaluated for small orders with a "
+    "reference model of the index registry (generic requests hand out fresh objects, named requests one object per name) and "
+    "with every call of an uncached wavefunction method (psi, overlap, norm_factor - must carry no caching decorator) as a "
+    "distinguishable instance; on every returning path (a) no product, also inside wicks(..), contains the same index-carrying "
+    "factor twice, a power of one, or one wavefunction instance in two factors (memoised overlaps, cached psi, repeated "
+    "cached factors with identical index strings), (b) named indices are requested only for the caller-supplied strings and "
+    "for names generated in the same evaluation, (c) all tensor indices of psi are generic indices of that very request. "
+    "R19c: provenance of string literals (through local bindings, f-strings, concatenation, defaults of parameters, module "
+    "constants): no literal that spells a TensorNames default (also t<n>[cc], p<n>, default + computed extension) reaches a "
+    "tensor constructor name, a comparison / membership / table look-up / prefix test of a tensor name (.name reads and what "
+    "is bound from them, tensor-name parameters found by a fixpoint over the call sites) or an argument bound to a "
+    "tensor-name parameter; functions that read the registry of intermediates are evaluated and every look-up key derived "
+    "from longname() must ask for default names. R19d: TensorNames evaluated: dataclass(frozen=True, slots=True), Singleton "
+    "metaclass, one module-level instance = _from_config() = TensorNames(**json), defaults() = {field.name: field.default}; no "
+    "attribute store / setattr on the instance (through any import alias) in the package. R19e: the code of Indices is evaluated "
+    "on concrete registry states for all request histories up to depth 3 over an alphabet of generic and named requests "
+    "(names of the current, the next and no generation): a named request returns the one object of its name (stability), a "
+    "generic request never returns an object handed out earlier in the history (freshness); registry ownership and the "
+    "complete model check of the registry are R08c/R08d of C08, run here as well. R19i: cached_member and cached_property are "
+    "evaluated on a method model that counts its evaluations, for call sequences over two instances, two methods, positional/"
+    "keyword/default spellings: a result is reused only for the same instance, method and fully bound arguments, equal "
+    "requests are evaluated once, the method receives the requested arguments. R19j: TensorNames.rename_tensors is evaluated "
+    "on a model expression (a list of tensor names with rename_tensor / atoms, both iteration orders) for seven "
+    "configurations (identity, one rename, two defaults swapped, a chain, amplitudes renamed, amplitudes and densities swapped, "
+    "a name taken from a later field): every default name incl. t<n>[cc] / p<n> ends up with the name map_default_name "
+    "assigns to it, all at once. R19f: alias flow from every use of a cached method/property whose result is a mutable "
+    "container (names, walrus, conditional expressions, reaching definitions) to in-place mutations (mutator methods, item/"
+    "attribute stores, augmented assignment, arguments of repository functions that mutate the bound parameter); cached "
+    "derivation methods return immutable sympy objects on every evaluated path.")
 ASSUMPTIONS = [
     "equality of text across histories needs executions and is not decided",
-    "set iteration over small ints is treated as seed independent (CPython int hashing)",
+    "set iteration over small ints is treated as seed independent (CPython int hashing); frozen set-order exceptions are human judgements",
+    "derivation skeletons are evaluated for bounded orders/spaces only (quick: orders <= 3, norm_factor/s_root <= 6; thorough adds order 4, "
+    "s_root 7, doubles blocks); wicks, simplify, operators and tensors are uninterpreted, indices follow the reference registry model",
+    "order taint does not follow values through calls of other repository functions (an argument is a sink) nor through "
+    "attributes of self; set-valued dict entries (d[k] being a set) are not typed as unordered",
+    "call-graph closure resolves attribute calls by method name over the whole package (over-approximation)",
+    "R19e explores histories of depth <= 3 with spin-free occupied requests; R19i models inspect.signature/bind/apply_defaults, "
+    "functools.wraps and property by reference implementations; R19j models the expression as a list of tensor names "
+    "(rename_tensor renames every tensor of that name, atoms lists the names present) for seven configurations",
+    "tensor-name typing: `.name` reads, names bound from them and derived tensor-name parameters; literals built by "
+    "str.join/replace or read from files are not tracked",
 ]
 
-ORDER_FREE_CALLS = {"sorted", "set", "frozenset", "any", "all", "sum", "len", "min", "max", "Mul", "Add", "Counter"}
-# (function, iterated text) -> reason
-SET_ITER_FROZEN = {
-    ("func:evaluate_deltas", "obj.atoms(Index)"):
-        "occurrence counter; the derived target list is only used for membership tests",
-    ("spatial_orbitals:integrate_spin", "term_indices"):
-        "derived lists feed set.add / all 2^n assignments, each contributing a commutative `+=`",
-    ("spatial_orbitals:transform_to_spatial_orbitals", "idx"):
-        "old/new lists are built from one iteration (same-origin zip) and applied through order_substitutions",
-    ("tensor_names:TensorNames.rename_tensors", "expr.sympy.atoms(Symbol)"):
-        "renames of distinct default names to distinct configured names commute",
-    ("generate_code.optimize_contractions:_group_objects", "positions"):
-        "set of small ints: CPython iterates them independently of the hash seed",
-    ("factor_intermediates:_factor_long_intermediate", "set(itmd[itmd_i].expr.idx)"):
-        "derived tuple is only scanned with any(.. in ..) and printed in an error message",
-    ("factor_intermediates:_factor_short_intermediate", "set(itmd.expr.idx)"):
-        "derived tuple is only scanned with any(.. in ..) and printed in an error message",
-}
-CACHE_DECOS = ("cached_member", "cached_property")
+CACHE_DECOS = ("cached_member", "cached_property", "cache", "lru_cache", "cached")
 MUTATORS = {"append", "extend", "update", "pop", "clear", "add", "remove", "insert", "sort", "reverse", "setdefault",
             "popitem", "discard", "expand", "subs", "doit", "make_real", "substitute_contracted", "substitute_with_generic",
             "factor", "set_sym_tensors", "set_antisym_tensors", "set_target_idx", "rename_tensor", "diagonalize_fock",
             "block_diagonalize_fock", "expand_antisym_eri", "use_symbolic_denominators", "use_explicit_denominators",
             "expand_intermediates", "permute"}
-DEFAULT_NAMES = None
 
 
-def is_set_expr(n):
-    if isinstance(n, (ast.Set, ast.SetComp)):
-        return True
-    if isinstance(n, ast.Call):
-        if isinstance(n.func, ast.Name) and n.func.id in ("set", "frozenset"):
-            return True
-        if call_name(n) in ("atoms", "intersection", "union", "difference", "symmetric_difference"):
-            return True
-    if isinstance(n, ast.BinOp) and isinstance(n.op, (ast.BitAnd, ast.BitOr, ast.BitXor)):
-        return is_set_expr(n.left) or is_set_expr(n.right)
-    return False
+# ====================================================================== R19a (1): sort keys
+# Every function that can be reached from a sort key (call graph closure over the repository) is free of hash()/id().
+
+SEED_CALLS = ("hash", "id", "__hash__")
 
 
-def _set_iterations(fn):
+def _scope_chain(node):
     out = []
-    for n in walk_fn(fn):
-        its = []
-        if isinstance(n, ast.For):
-            its.append((n.iter, n))
-        elif isinstance(n, ast.comprehension):
-            its.append((n.iter, n))
-        for it, node in its:
-            if is_set_expr(it):
-                out.append((it, node))
-            elif isinstance(it, ast.Name):
-                st = enclosing_stmt(it)
-                if st is None:
-                    continue
-                live = reaching_assignments(fn, it.id, st)
-                if live and any(is_set_expr(a.value) for a in live):
-                    out.append((it, node))
+    for p in [node] + list(parents(node)):
+        if isinstance(p, FuncNode):
+            out.append(p)
     return out
 
 
-def _benign_consumer(node) -> str | None:
-    """order-insensitive use of the sequence produced by a comprehension"""
-    if isinstance(node, ast.comprehension):
-        comp = node._parent
-        if isinstance(comp, (ast.SetComp, ast.DictComp)):
-            return "builds a set/dict"
-        p = comp._parent
-        hops = 0
-        while isinstance(p, (ast.Starred,)) or (isinstance(p, ast.Call) and call_name(p) in ("tuple", "list") and hops < 2):
-            p = p._parent
-            hops += 1
-        if isinstance(p, ast.Call) and call_name(p) in ORDER_FREE_CALLS:
-            return f"consumed by {call_name(p)}(...)"
-        if isinstance(p, ast.keyword) and isinstance(p._parent, ast.Call) and call_name(p._parent) in ORDER_FREE_CALLS:
-            return f"consumed by {call_name(p._parent)}(...)"
-        return None
-    # for loop: body only stores keyed by the element / adds to sets / counts
-    ok = True
-    for s in ast.walk(ast.Module(body=node.body, type_ignores=[])):
-        if isinstance(s, ast.Call) and call_name(s) in ("append", "extend", "insert") and isinstance(s.func, ast.Attribute):
-            ok = False
-        if isinstance(s, (ast.Return, ast.Yield)):
-            ok = False
-        if isinstance(s, ast.AugAssign) and isinstance(s.target, ast.Name) and not isinstance(s.op, (ast.Add, ast.Mult)):
-            ok = False
-    return "loop body only adds to sets / keyed stores / commutative accumulation" if ok else None
+class CallGraph:
+    def __init__(self, model):
+        self.model = model
+        self.by_short = {}
+        for ref, fn in model.all_functions():
+            self.by_short.setdefault(fn.name, []).append(fn)
+        self._direct = {}
+        self._defs = {}
+        self._busy = set()
+
+    def defs(self, fn):
+        if id(fn) not in self._defs:
+            self._defs[id(fn)] = Defs(fn)
+        return self._defs[id(fn)]
+
+    def resolve_name(self, name, at):
+        """repository functions a bare name may denote at ``at`` (nested defs, local lambdas, module level, imports)"""
+        out = []
+        mod = at._module
+        for sc in _scope_chain(at):
+            q = f"{sc._qual}.{name}"
+            if q in mod.functions:
+                return [mod.functions[q]]
+            b = self.defs(sc).all_defs(name)
+            if b:
+                if (name, id(sc)) in self._busy:
+                    return out
+                self._busy.add((name, id(sc)))
+                try:
+                    for kind, v in b:
+                        if kind in ("assign",) and v is not None:
+                            out.extend(self.functions_of_expr(v, v if hasattr(v, "_module") else at))
+                finally:
+                    self._busy.discard((name, id(sc)))
+                return out
+        if name in mod.functions:
+            return [mod.functions[name]]
+        if name in mod.classes:
+            return [f for q, f in mod.functions.items() if q.rsplit(".", 1)[0] == name and f.name in ("__init__", "__new__", "__post_init__", "__call__")]
+        if name in mod.imports:
+            origin = mod.imports[name]
+            modp, _, obj = origin.partition(":")
+            if _ and modp.startswith("."):
+                tgt = modp.lstrip(".")
+                base = mod.name.split(".")[:-1]
+                lvl = len(modp) - len(tgt)
+                if lvl > 1:
+                    base = base[:len(base) - (lvl - 1)]
+                full = ".".join(base + ([tgt] if tgt else []))
+                m2 = self.model.modules.get(full)
+                if m2 is not None:
+                    if obj in m2.functions:
+                        return [m2.functions[obj]]
+                    if obj in m2.classes:
+                        return [f for q, f in m2.functions.items() if q.rsplit(".", 1)[0] == obj and
+                                f.name in ("__init__", "__new__", "__post_init__", "__call__")]
+        return out
+
+    def functions_of_expr(self, e, at):
+        """function bodies an expression used as a callable may denote"""
+        if isinstance(e, ast.Lambda):
+            return [e]
+        if isinstance(e, ast.Name):
+            return self.resolve_name(e.id, at)
+        if isinstance(e, ast.Attribute):
+            return list(self.by_short.get(e.attr, []))
+        if isinstance(e, ast.Call):      # partial(f, ..), cmp_to_key(f), attrgetter(..)
+            out = []
+            for a in list(e.args) + [k.value for k in e.keywords]:
+                if isinstance(a, (ast.Lambda, ast.Name, ast.Attribute)):
+                    out.extend(self.functions_of_expr(a, at))
+            return out
+        if isinstance(e, ast.IfExp):
+            return self.functions_of_expr(e.body, at) + self.functions_of_expr(e.orelse, at)
+        return []
+
+    def direct(self, f):
+        """(seed calls, callees) of one function body / lambda"""
+        if id(f) in self._direct:
+            return self._direct[id(f)]
+        seeds, callees = [], []
+        body = [f.body] if isinstance(f, ast.Lambda) else f.body
+        for st in body:
+            for n in ast.walk(st):
+                if not isinstance(n, ast.Call):
+                    # a function passed on as a key / callback inside the body
+                    continue
+                fu = n.func
+                if isinstance(fu, ast.Name) and fu.id in SEED_CALLS and not self._shadowed(fu.id, n):
+                    seeds.append(n)
+                elif isinstance(fu, ast.Attribute) and fu.attr in SEED_CALLS:
+                    seeds.append(n)
+                else:
+                    callees.extend(self.functions_of_expr(fu, n))
+                for a in list(n.args) + [k.value for k in n.keywords]:
+                    if isinstance(a, ast.Lambda):
+                        callees.append(a)
+                    elif isinstance(a, ast.Name):
+                        if a.id in SEED_CALLS and not self._shadowed(a.id, n):
+                            seeds.append(n)
+                        else:
+                            callees.extend(self.resolve_name(a.id, n))
+        self._direct[id(f)] = (seeds, callees)
+        return seeds, callees
+
+    def _shadowed(self, name, at):
+        for sc in _scope_chain(at):
+            if self.defs(sc).all_defs(name):
+                return True
+        return name in at._module.functions
+
+    def reachable_seeds(self, roots):
+        """seed calls reachable from the given bodies: list of (seed call node, chain of function names)"""
+        out, seen = [], set()
+        stack = [(r, ()) for r in roots]
+        while stack:
+            f, chain = stack.pop()
+            if id(f) in seen:
+                continue
+            seen.add(id(f))
+            seeds, callees = self.direct(f)
+            nm = getattr(f, "name", "<lambda>")
+            for s in seeds:
+                out.append((s, chain + (nm,)))
+            for c in callees:
+                stack.append((c, chain + (nm,)))
+        return out, len(seen)
 
 
-def r19a(ctx):
+def call_graph(ctx):
+    if getattr(ctx, "_c19_cg", None) is None:
+        ctx._c19_cg = CallGraph(ctx.model)
+    return ctx._c19_cg
+
+
+def _key_sites(ctx, cg):
+    """(call node, key expression) for every call that passes a sort key: ``key=`` keyword of any callee and positional
+    arguments bound to a parameter named ``key`` of a repository function"""
+    out = []
+    for mname, m in ctx.model.modules.items():
+        ctx.model.used_modules.add(mname)
+        for n in ast.walk(m.tree):
+            if not isinstance(n, ast.Call):
+                continue
+            k = kwarg(n, "key")
+            if k is None and n.args and not any(isinstance(a, ast.Starred) for a in n.args):
+                for f in cg.functions_of_expr(n.func, n) if isinstance(n.func, ast.Name) else []:
+                    if isinstance(f, ast.Lambda):
+                        continue
+                    params = [a.arg for a in f.args.posonlyargs + f.args.args]
+                    if "key" in params and params.index("key") < len(n.args):
+                        k = n.args[params.index("key")]
+            if k is not None and not (isinstance(k, ast.Constant) and k.value is None):
+                out.append((n, k))
+    return out
+
+
+def r19a_keys(ctx):
     rule = "R19a"
-    # (1) hash / id inside sort keys
-    keyfuncs = {}
-    n_keys = 0
-    for ref, fn in ctx.model.all_functions():
-        for c in calls_in(fn, nested=False):
-            k = kwarg(c, "key")
-            if k is None or call_name(c) not in ("sorted", "sort", "min", "max", "_sort_anticommuting_fermions"):
+    cg = call_graph(ctx)
+    sites = _key_sites(ctx, cg)
+    ctx.floor(rule, "calls that pass a sort key", len(sites), 20)
+    n_fn = 0
+    by_seed = {}
+    for call, k in sites:
+        ref = fn_of(call)
+        if isinstance(k, ast.Name) and k.id in SEED_CALLS and not cg._shadowed(k.id, call):
+            ctx.bad(rule, call, f"`{short(call, 70)}` sorts by {k.id}(): the order depends on the interpreter's hash seed / addresses",
+                    fn=ref, key=f"key {k.id}")
+            continue
+        seeds, n = cg.reachable_seeds(cg.functions_of_expr(k, call))
+        n_fn += n
+        for s, chain in seeds:
+            by_seed.setdefault(id(s), (s, chain, []))[2].append(call)
+        if not seeds:
+            ctx.ok(rule, k, f"sort key of `{call_name(call)}` and the {n} function(s) it reaches are free of hash()/id()", fn=ref,
+                   key=f"key site {ref} {short(call, 60)}")
+    for s, chain, calls_ in by_seed.values():
+        ctx.bad(rule, s, f"`{U(s)}` is evaluated for the sort key of {len(calls_)} call(s), e.g. `{short(calls_[0], 60)}` (via "
+                f"{' -> '.join(chain)}): the order of tied elements (and with it the printed text and the term count) depends on "
+                "PYTHONHASHSEED / object addresses", fn=fn_of(s), key=f"{U(s.func)} in key {chain[-1]}")
+    ctx.floor(rule, "function bodies reached from sort keys", n_fn, 20)
+
+
+# ====================================================================== R19a (2): iteration order of sets
+# Order taint: every ordered read of an unordered collection (loop, comprehension, list()/tuple()/unpacking/join/pop) is
+# followed through names, containers and derived sequences to its consumers.  Order-free consumers (membership, any/all/
+# len/sum/min/max/sorted/set/Counter, commutative Add/Mul, set.add, keyed stores, commutative accumulation, diagnostics)
+# end the taint; a return/yield, an argument of another function, indexing, an effect performed per element ... is a
+# sink.  Sinks are violations unless the site is a frozen, reasoned exception keyed by function and origin of the set.
+
+ORDER_FREE_CALLS = {"sorted", "set", "frozenset", "any", "all", "sum", "len", "min", "max", "Mul", "Add", "Counter", "bool"}
+PASS_THROUGH_CALLS = {"list", "tuple", "enumerate", "zip", "reversed", "iter", "map", "filter", "chain", "from_iterable",
+                      "product", "permutations", "combinations", "combinations_with_replacement", "islice", "deque"}
+SET_METHODS = {"atoms", "intersection", "union", "difference", "symmetric_difference", "free_symbols"}
+ORDER_FREE_EFFECTS = {"add", "update", "discard", "setdefault", "debug", "info", "warning", "error", "critical", "warn"}
+SEQ_GROW = {"append", "extend", "insert", "appendleft", "extendleft"}
+COMMUTATIVE_AUG = (ast.Add, ast.Mult, ast.BitOr, ast.BitAnd, ast.BitXor, ast.Sub)
+# (function, origin of the set with local names resolved) -> reason
+SET_ORDER_FROZEN = {
+    ("func:evaluate_deltas", "dict filled per element of atoms() over .args .atoms Index expr"):
+        "occurrence counter; the derived list of target indices is only used for membership tests (also in the recursion)",
+    ("spatial_orbitals:transform_to_spatial_orbitals", "set() over .idx .terms expr set"):
+        "old/new index lists are built from one iteration (same-origin zip) and applied through order_substitutions",
+    ("tensor_names:TensorNames.rename_tensors", "atoms() over .atoms .sympy Symbol expr"):
+        "renames of distinct default names to distinct configured names commute",
+    ("generate_code.optimize_contractions:_group_objects",
+     "set display over  | set display over ._split_contracted_and_target Contraction obj_indices target_indices"):
+        "set of small ints (object positions): CPython iterates them independently of the hash seed; the derived index "
+        "tuples are only split into contracted/target sets",
+}
+
+
+class _Scope:
+    """Name bindings of one function body including its comprehensions (nested defs/lambdas read them as closures)."""
+
+    def __init__(self, fn, defs=None):
+        self.fn = fn
+        self.defs = defs or Defs(fn)
+        self.loads = {}
+        self.subscript_stores = {}
+        for n in walk_fn(fn, nested=True):
+            if isinstance(n, ast.Name) and isinstance(n.ctx, ast.Load):
+                self.loads.setdefault(n.id, []).append(n)
+        self.params = {a.arg: a for a in fn.args.posonlyargs + fn.args.args + fn.args.kwonlyargs}
+
+    def values(self, name):
+        return [v for k, v in self.defs.all_defs(name) if k == "assign" and v is not None]
+
+    def is_local(self, name):
+        return bool(self.defs.all_defs(name))
+
+
+class SetOrder:
+    def __init__(self, ctx):
+        self.ctx = ctx
+        self.model = ctx.model
+        self.cg = call_graph(ctx)
+        self._scopes = {}
+        self._ret_unordered = {}
+
+    def scope(self, fn):
+        if id(fn) not in self._scopes:
+            self._scopes[id(fn)] = _Scope(fn, self.cg.defs(fn))
+        return self._scopes[id(fn)]
+
+    # ------------------------------------------------------------ typing
+    def unordered(self, e, sc, depth=5, seen=None):
+        """The value of ``e`` is a set/frozenset (or a dict filled in the order of one)."""
+        seen = set() if seen is None else seen
+        if id(e) in seen or depth < 0:
+            return False
+        seen.add(id(e))
+        if isinstance(e, (ast.Set, ast.SetComp)):
+            return True
+        if isinstance(e, ast.DictComp):
+            return any(self.unordered(self._unwrap(g.iter), sc, depth - 1, seen) for g in e.generators)
+        if isinstance(e, ast.Call):
+            f = e.func
+            if isinstance(f, ast.Name):
+                if f.id in ("set", "frozenset"):
+                    return True
+                if f.id in ("dict", "list", "tuple", "sorted"):
+                    return False
+                for g in self.cg.resolve_name(f.id, e):
+                    if isinstance(g, FuncNode) and self.returns_unordered(g):
+                        return True
+                return False
+            if isinstance(f, ast.Attribute):
+                if f.attr in SET_METHODS:
+                    return True
+                if f.attr in ("copy", "keys", "values", "items"):
+                    return self.unordered(f.value, sc, depth - 1, seen)
+                return False
+        if isinstance(e, ast.BinOp) and isinstance(e.op, (ast.BitAnd, ast.BitOr, ast.BitXor, ast.Sub)):
+            return self.unordered(e.left, sc, depth - 1, seen) or self.unordered(e.right, sc, depth - 1, seen)
+        if isinstance(e, ast.IfExp):
+            return self.unordered(e.body, sc, depth - 1, seen) or self.unordered(e.orelse, sc, depth - 1, seen)
+        if isinstance(e, ast.NamedExpr):
+            return self.unordered(e.value, sc, depth - 1, seen)
+        if isinstance(e, ast.Name):
+            if e.id in sc.params:
+                ann = sc.params[e.id].annotation
+                if ann is not None and U(ann).split("[")[0].split(".")[-1] in ("set", "frozenset", "Set", "FrozenSet", "AbstractSet"):
+                    return True
+            if any(self.unordered(v, sc, depth - 1, seen) for v in sc.values(e.id)):
+                return True
+            return e.id in self.tainted_dicts(sc)
+        if isinstance(e, ast.Attribute) and e.attr in SET_METHODS:
+            return True
+        return False
+
+    def returns_unordered(self, fn):
+        if id(fn) not in self._ret_unordered:
+            self._ret_unordered[id(fn)] = False
+            sc = self.scope(fn)
+            rets = [r.value for r in walk_fn(fn, nested=False) if isinstance(r, ast.Return) and r.value is not None]
+            self._ret_unordered[id(fn)] = bool(rets) and all(self.unordered(r, sc, 3) for r in rets)
+        return self._ret_unordered[id(fn)]
+
+    def tainted_dicts(self, sc):
+        """Dicts that receive new keys inside a loop over an unordered collection (their key order is tainted):
+        name -> the unordered collection"""
+        if not hasattr(sc, "_tdicts"):
+            sc._tdicts = {}
+            for n in walk_fn(sc.fn, nested=False):
+                if not isinstance(n, ast.For):
+                    continue
+                srcs = [s for s in self._sources(n.iter) if self.unordered(s, sc, 3)]
+                if not srcs:
+                    continue
+                for x in ast.walk(ast.Module(body=n.body, type_ignores=[])):
+                    tg = []
+                    if isinstance(x, ast.Assign):
+                        tg = x.targets
+                    elif isinstance(x, ast.AugAssign):
+                        tg = [x.target]
+                    for t in tg:
+                        if isinstance(t, ast.Subscript) and isinstance(t.value, ast.Name) and \
+                                any(isinstance(v, (ast.Dict, ast.DictComp)) or (isinstance(v, ast.Call) and
+                                    call_name(v) in ("dict", "defaultdict", "OrderedDict")) for v in sc.values(t.value.id)):
+                            sc._tdicts.setdefault(t.value.id, srcs[0])
+        return sc._tdicts
+
+    @staticmethod
+    def _unwrap(e):
+        """enumerate(S), zip(S, ..), map(f, S), list(S) ... read S in order"""
+        while isinstance(e, ast.Call) and call_name(e) in PASS_THROUGH_CALLS and e.args:
+            nxt = None
+            for a in e.args:
+                if not isinstance(a, (ast.Lambda, ast.Constant)):
+                    nxt = a
+                    break
+            if nxt is None:
+                break
+            e = nxt
+        return e
+
+    def _sources(self, e):
+        """the iterables read by an iteration expression (all arguments of zip/chain/product ...)"""
+        if isinstance(e, ast.Call) and call_name(e) in PASS_THROUGH_CALLS and e.args:
+            out = []
+            for a in e.args:
+                if isinstance(a, ast.Starred):
+                    a = a.value
+                if not isinstance(a, (ast.Lambda, ast.Constant)):
+                    out.extend(self._sources(a))
+            return out
+        return [e]
+
+    # ------------------------------------------------------------ sites
+    def sites(self, fn):
+        """(expression that is the unordered collection, node that reads it in order)"""
+        sc = self.scope(fn)
+        out = []
+        for n in walk_fn(fn, nested=True):
+            if isinstance(n, FuncNode):
                 continue
-            n_keys += 1
-            if isinstance(k, ast.Lambda):
-                bad = [x for x in ast.walk(k.body) if isinstance(x, ast.Call) and isinstance(x.func, ast.Name) and x.func.id in ("hash", "id")]
-                ctx.check(rule, k, not bad, "lambda sort key free of hash()/id()",
-                          f"sort key `{short(k, 60)}` uses hash()/id(): the order depends on the interpreter's hash seed / addresses",
-                          fn=ref, key=f"lambda key {short(k, 40)}")
-                for x in ast.walk(k.body):
-                    if isinstance(x, ast.Call) and isinstance(x.func, ast.Name):
-                        keyfuncs.setdefault(x.func.id, []).append(ref)
-            elif isinstance(k, ast.Name):
-                keyfuncs.setdefault(k.id, []).append(ref)
-    ctx.floor(rule, "sort/min/max sites with a key", n_keys, 20)
-    for name, users in sorted(keyfuncs.items()):
-        for mod in ctx.model.modules.values():
-            f = mod.functions.get(name)
-            if f is None:
+            reads = []
+            if isinstance(n, (ast.For, ast.comprehension)):
+                reads = [(s, n) for s in self._sources(n.iter)]
+            elif isinstance(n, ast.Call):
+                f = n.func
+                par = getattr(n, "_parent", None)
+                if isinstance(par, (ast.For, ast.comprehension)) and par.iter is n:
+                    continue
+                if isinstance(par, ast.Call) and call_name(par) in PASS_THROUGH_CALLS and n in par.args:
+                    continue    # read by the outer wrapper
+                if isinstance(f, ast.Name) and f.id in PASS_THROUGH_CALLS | {"next", "str", "repr"} and n.args:
+                    reads = [(s, n) for s in self._sources(n)] if f.id in PASS_THROUGH_CALLS else [(self._unwrap(n.args[0]), n)]
+                elif isinstance(f, ast.Attribute) and f.attr == "join" and n.args:
+                    reads = [(s, n) for s in self._sources(n.args[0])]
+                elif isinstance(f, ast.Attribute) and f.attr == "pop" and not n.args:
+                    reads = [(f.value, n)]
+                for a in n.args:
+                    if isinstance(a, ast.Starred) and not (isinstance(f, ast.Name) and f.id in PASS_THROUGH_CALLS):
+                        reads.append((a.value, a))
+            elif isinstance(n, (ast.List, ast.Tuple)) and isinstance(n.ctx, ast.Load):
+                reads = [(x.value, x) for x in n.elts if isinstance(x, ast.Starred)]
+            elif isinstance(n, ast.Assign) and len(n.targets) == 1 and isinstance(n.targets[0], (ast.Tuple, ast.List)):
+                reads = [(n.value, n)]      # unpacking
+            for src, node in reads:
+                owner = self.scope(enclosing(src, FuncNode) or fn)
+                if self.unordered(src, owner):
+                    out.append((src, node, owner))
+        return out
+
+    # ------------------------------------------------------------ consumers
+    def sinks_of_read(self, src, node, sc):
+        """order-sensitive consumers reached from one ordered read; [] means the order cannot be observed"""
+        self.seen = set()
+        self.sc = sc
+        if isinstance(node, ast.For):
+            return self.loop_sinks(node)
+        if isinstance(node, ast.comprehension):
+            comp = node._parent
+            if isinstance(comp, ast.SetComp):
+                return []
+            if isinstance(comp, ast.DictComp):
+                return self.value_sinks(comp)       # key order follows the set; followed like a sequence
+            return self.value_sinks(comp)
+        if isinstance(node, ast.Starred):
+            return self.value_sinks(node)
+        if isinstance(node, ast.Assign):
+            return [] if self.singleton(src, node) else [(node, "unpacked into names")]
+        if isinstance(node, ast.Call) and call_name(node) in ("next", "pop"):
+            return [] if self.singleton(src, node) else [(node, "one element selected")]
+        if isinstance(node, ast.Call) and call_name(node) in ("str", "repr"):
+            return self.value_sinks(node)
+        return self.value_sinks(node)
+
+    def singleton(self, src, at):
+        """``len(src) == 1`` is established (assert / enclosing branch) where ``at`` is evaluated"""
+        if not isinstance(src, ast.Name):
+            return False
+        sx = Symex(self.model, what="guard")
+        sx.prefix, sx.decisions, sx.facts, sx.path, sx.effects, sx.steps, sx.depth = [], [], {}, [], [], 0, 0
+        names = {n.id for n in ast.walk(self.sc.fn) if isinstance(n, ast.Name)} - {"len"}
+        sx.frames, sx.module = [{n: sym(n) for n in names if self.sc.is_local(n) or n in self.sc.params}], self.sc.fn._module
+        want = t_cmp("==", T("call", "len", (sym(src.id),), ()), 1)
+
+        def holds(test, pol):
+            try:
+                t = sx.ev(test)
+            except AnalysisError:
+                return False
+            if not pol:
+                t = t_not(t) if isinstance(t, T) else (not t)
+            return isinstance(t, T) and (t == want or (t.op == "and" and want in t.args))
+        child = at
+        for p in parents(at):
+            if isinstance(p, ast.If):
+                if any(child is s for s in p.body) and holds(p.test, True):
+                    return True
+                if any(child is s for s in p.orelse) and holds(p.test, False):
+                    return True
+            if isinstance(p, ast.IfExp) and ((child is p.body and holds(p.test, True)) or (child is p.orelse and holds(p.test, False))):
+                return True
+            for field in ("body", "orelse", "finalbody"):
+                lst = getattr(p, field, None)
+                if isinstance(lst, list) and any(child is s for s in lst):
+                    for s in lst:
+                        if s is child:
+                            break
+                        if isinstance(s, ast.Assert) and holds(s.test, True):
+                            return True
+                        if isinstance(s, ast.If) and not s.orelse and common_always_exits(s.body) and holds(s.test, False):
+                            return True
+                        if any(isinstance(b, ast.Name) and isinstance(b.ctx, ast.Store) and b.id == src.id for b in ast.walk(s)) \
+                                and not isinstance(s, ast.Assert):
+                            pass
+            if isinstance(p, FuncNode):
+                break
+            child = p
+        return False
+
+    def _diagnostic(self, n):
+        """inside a raise statement / logging call: text of a message only"""
+        for p in [n] + list(parents(n)):
+            if isinstance(p, ast.Raise):
+                return True
+            if isinstance(p, ast.Call) and call_name(p) in ("debug", "info", "warning", "error", "critical", "warn", "print"):
+                return True
+            if isinstance(p, ast.Assert) and p.msg is not None and any(x is n for x in ast.walk(p.msg)):
+                return True
+            if isinstance(p, ast.stmt):
+                return False
+        return False
+
+    def value_sinks(self, v, nested=False):
+        """Consumers of an order-tainted value: a sequence/string whose order follows the set, or (``nested``) a container
+        whose elements are such sequences."""
+        if (id(v), nested) in self.seen:
+            return []
+        self.seen.add((id(v), nested))
+        p = getattr(v, "_parent", None)
+        if p is None:
+            return [(v, "escapes")]
+        if self._diagnostic(v):
+            return []
+        if isinstance(p, ast.Starred):
+            return self.value_sinks(p, nested)
+        if isinstance(p, ast.keyword):
+            call = p._parent
+            return [] if call_name(call) in ORDER_FREE_CALLS and not nested else [(call, f"passed to {call_name(call)}(..)")]
+        if isinstance(p, ast.Call):
+            nm = call_name(p)
+            if nm in ORDER_FREE_CALLS and not nested:
+                return []
+            if nm in PASS_THROUGH_CALLS or nm in ("str", "repr", "join", "dict", "OrderedDict", "array"):
+                return self.value_sinks(p, nested)
+            if isinstance(p.func, ast.Attribute) and nm in ("add", "update", "discard", "difference_update", "intersection_update",
+                                                             "issubset", "issuperset", "isdisjoint", "intersection", "union", "difference") \
+                    and not nested:
+                return []
+            if isinstance(p.func, ast.Attribute) and nm in SEQ_GROW | {"add", "update", "setdefault"}:
+                return self.container_sinks(p.func.value, p, nested=True)
+            return [(p, f"passed to {nm}(..)")]
+        if isinstance(p, ast.Attribute):        # v.method(...) / v.attr
+            call = getattr(p, "_parent", None)
+            if not (isinstance(call, ast.Call) and call.func is p):
+                return [(p, f"attribute .{p.attr} of the ordered value")]
+            m = p.attr
+            if m in ("items", "values", "keys", "copy"):
+                return self.value_sinks(call, nested)
+            if m in ("get", "pop", "setdefault", "__getitem__"):
+                return self.value_sinks(call, False) if nested else ([(call, f".{m}() of the ordered value")] if m == "pop" else [])
+            if m in ("count", "__contains__", "issubset", "issuperset", "isdisjoint", "add", "update", "discard", "clear", "remove",
+                     "sort", "startswith", "endswith") or m in SEQ_GROW:
+                return []
+            return [(call, f"method .{m}() of the ordered value")]
+        if isinstance(p, ast.Compare):
+            ops = p.ops
+            if len(ops) == 1 and isinstance(ops[0], (ast.In, ast.NotIn)):
+                return [] if p.comparators[0] is v else self.value_sinks(p, nested)
+            if any(isinstance(o, (ast.Is, ast.IsNot)) for o in ops):
+                return []
+            return [(p, "order-sensitive comparison")]
+        if isinstance(p, ast.UnaryOp) and isinstance(p.op, ast.Not):
+            return []
+        if isinstance(p, (ast.BoolOp, ast.UnaryOp)):
+            return self.value_sinks(p, nested)
+        if isinstance(p, (ast.If, ast.While, ast.Assert)):
+            return []
+        if isinstance(p, ast.IfExp):
+            return [] if p.test is v else self.value_sinks(p, nested)
+        if isinstance(p, ast.Expr):
+            return []
+        if isinstance(p, (ast.Return, ast.Yield, ast.YieldFrom)):
+            return [(p, "returned" if isinstance(p, ast.Return) else "yielded")]
+        if isinstance(p, ast.Lambda):
+            return [(p, "result of a lambda")]
+        if isinstance(p, (ast.JoinedStr, ast.FormattedValue)):
+            return self.value_sinks(p, nested)
+        if isinstance(p, ast.BinOp):
+            return self.value_sinks(p, nested)
+        if isinstance(p, (ast.Tuple, ast.List, ast.Set)):
+            if isinstance(getattr(p, "ctx", None), ast.Store):
+                return [(p, "unpacked")]
+            return self.value_sinks(p, True)
+        if isinstance(p, ast.Dict):
+            return self.value_sinks(p, True)
+        if isinstance(p, ast.Subscript):
+            if p.value is v:
+                if isinstance(p.ctx, (ast.Store, ast.Del)):
+                    return []
+                return self.value_sinks(p, False) if nested else [(p, "indexed")]
+            return self.value_sinks(p, nested) if isinstance(p.ctx, ast.Load) else []
+        if isinstance(p, ast.comprehension):
+            if p.iter is v or any(v is s for s in self._sources(p.iter)):
+                comp = p._parent
+                out = []
+                if nested:
+                    for t in ast.walk(p.target):
+                        if isinstance(t, ast.Name):
+                            out.extend(self.comp_name_sinks(t.id, comp))
+                return out + ([] if isinstance(comp, ast.SetComp) else self.value_sinks(comp, False))
+            return []       # used in a condition
+        if isinstance(p, (ast.ListComp, ast.GeneratorExp, ast.SetComp, ast.DictComp)):
+            # element expression of a comprehension: the result holds the tainted value
+            return self.value_sinks(p, True)
+        if isinstance(p, ast.For):
+            if p.iter is v:
+                out = self.loop_sinks(p)
+                if nested:
+                    for t in ast.walk(p.target):
+                        if isinstance(t, ast.Name):
+                            out.extend(self.name_sinks(t.id, p.target, False))
+                return out
+            return []
+        if isinstance(p, ast.NamedExpr):
+            return self.name_sinks(p.target.id, p, nested) + self.value_sinks(p, nested)
+        if isinstance(p, (ast.Assign, ast.AnnAssign, ast.AugAssign)):
+            tgts = p.targets if isinstance(p, ast.Assign) else [p.target]
+            out = []
+            for t in tgts:
+                if isinstance(t, ast.Name):
+                    out.extend(self.name_sinks(t.id, p, nested))
+                elif isinstance(t, ast.Subscript):
+                    out.extend(self.container_sinks(t.value, p, nested=True))
+                elif isinstance(t, ast.Attribute):
+                    out.append((p, f"stored in .{t.attr}"))
+                else:
+                    out.append((p, "unpacked into names"))
+            return out
+        if isinstance(p, (ast.withitem, ast.With)):
+            return [(p, "context manager")]
+        if isinstance(p, ast.Raise):
+            return []
+        return [(p, f"used in {type(p).__name__}")]
+
+    def container_sinks(self, recv, at, nested=False):
+        """an element was put into the container ``recv`` in tainted order (``nested``: the element itself is an ordered
+        value): follow the container"""
+        depth = 0
+        base = recv
+        while isinstance(base, (ast.Subscript, ast.Attribute)) and not (isinstance(base, ast.Attribute) and isinstance(base.value, ast.Name) and base.value.id in ("self", "cls")):
+            depth += isinstance(base, ast.Subscript)
+            base = base.value
+        if isinstance(base, ast.Name) and base.id not in ("self", "cls"):
+            return self.name_sinks(base.id, at, nested or depth > 0)
+        return [(at, f"stored in {short(recv, 40)}")]
+
+    def name_sinks(self, name, at, nested=False):
+        """all reads of a local name that holds an order-tainted value"""
+        key = ("name", name, id(self.sc), nested)
+        if key in self.seen:
+            return []
+        self.seen.add(key)
+        out = []
+        if name in self.sc.params and not self.sc.values(name) and isinstance(at, ast.Call):
+            out.append((at, f"the caller's `{name}` is filled in iteration order"))
+        inside = {id(x) for x in ast.walk(at)}
+        for use in self.sc.loads.get(name, []):
+            if id(use) in inside:
                 continue
-            bad = [x for x in ast.walk(f) if isinstance(x, ast.Call) and isinstance(x.func, ast.Name) and x.func.id in ("hash", "id")]
-            for b in bad:
-                ctx.bad(rule, b, f"`{U(b)}` inside `{name}`, which is used as sort key at {len(users)} site(s): the canonical "
-                        "order of tied elements (and with it the printed text and term count) depends on PYTHONHASHSEED",
-                        fn=f"{mod.name}:{name}", key=f"{U(b)} in key {name}")
-            if not bad:
-                ctx.ok(rule, f, f"key function {name} free of hash()/id() ({len(users)} users)", fn=f"{mod.name}:{name}")
-    # (2) set iteration
+            out.extend(self.value_sinks(use, nested))
+        return out
+
+    def comp_name_sinks(self, name, comp):
+        out = []
+        for use in ast.walk(comp):
+            if isinstance(use, ast.Name) and isinstance(use.ctx, ast.Load) and use.id == name:
+                out.extend(self.value_sinks(use, False))
+        return out
+
+    def loop_sinks(self, loop):
+        """effects of a loop whose iteration order is tainted"""
+        if id(loop) in self.seen:
+            return []
+        self.seen.add(id(loop))
+        out = []
+        targets = {t.id for t in ast.walk(loop.target) if isinstance(t, ast.Name)}
+        body = ast.Module(body=list(loop.body) + list(loop.orelse), type_ignores=[])
+        # names whose value depends on the element of the current iteration
+        stored = set(targets)
+        changed = True
+        while changed:
+            changed = False
+            for n in ast.walk(body):
+                tg, val = [], None
+                if isinstance(n, ast.Assign):
+                    tg, val = n.targets, n.value
+                elif isinstance(n, (ast.AugAssign, ast.AnnAssign)):
+                    tg, val = [n.target], n.value
+                elif isinstance(n, ast.NamedExpr):
+                    tg, val = [n.target], n.value
+                elif isinstance(n, (ast.For, ast.comprehension)):
+                    tg, val = [n.target], n.iter
+                if val is None or not ({x.id for x in ast.walk(val) if isinstance(x, ast.Name)} & stored):
+                    continue
+                for t in tg:
+                    for x in ast.walk(t):
+                        if isinstance(x, ast.Name) and isinstance(x.ctx, ast.Store) and x.id not in stored:
+                            stored.add(x.id)
+                            changed = True
+        for n in ast.walk(body):
+            if isinstance(n, ast.Return):
+                if n.value is not None and not isinstance(n.value, ast.Constant) and ({x.id for x in ast.walk(n.value) if isinstance(x, ast.Name)} & stored):
+                    out.append((n, "value of one element returned from the loop"))
+            elif isinstance(n, (ast.Yield, ast.YieldFrom)):
+                out.append((n, "yielded per element"))
+            elif isinstance(n, ast.Break):
+                if enclosing(n, (ast.For, ast.While)) is loop and self._used_after(loop, stored):
+                    out.append((n, "loop left at the first matching element and its value is used afterwards"))
+            elif isinstance(n, ast.Expr) and isinstance(n.value, ast.Call):
+                c = n.value
+                nm = call_name(c)
+                if self._diagnostic(c) or nm in ORDER_FREE_EFFECTS:
+                    continue
+                if isinstance(c.func, ast.Attribute) and nm in SEQ_GROW | {"remove", "pop", "clear", "sort", "reverse"}:
+                    if nm in SEQ_GROW:
+                        out.extend(self.container_sinks(c.func.value, c))
+                    elif nm in ("remove", "clear", "sort"):
+                        continue
+                    else:
+                        out.append((c, f".{nm}() per element"))
+                    continue
+                out.append((c, f"effect {nm}(..) performed per element"))
+            elif isinstance(n, ast.AugAssign):
+                t = n.target
+                if isinstance(n.op, COMMUTATIVE_AUG) or (isinstance(n.op, ast.Sub)):
+                    if isinstance(t, ast.Name) and self._sequence_like(t.id):
+                        out.extend(self.name_sinks(t.id, n))
+                    continue
+                out.append((n, "non-commutative accumulation"))
+            elif isinstance(n, ast.Assign):
+                for t in n.targets:
+                    for x in ast.walk(t):
+                        if isinstance(x, ast.Attribute) and isinstance(x.ctx, ast.Store):
+                            out.append((n, f"attribute .{x.attr} overwritten per element"))
+        # a plain local assigned in the body and read after the loop holds the value of the last element
+        last = self._used_after(loop, stored - targets, plain_only=True)
+        if last:
+            out.append((loop, f"`{sorted(last)[0]}` holds the value of the last iteration after the loop"))
+        return out
+
+    def _sequence_like(self, name):
+        for v in self.sc.values(name):
+            if isinstance(v, (ast.List, ast.Tuple, ast.ListComp, ast.JoinedStr)) or (isinstance(v, ast.Constant) and isinstance(v.value, str)) \
+                    or (isinstance(v, ast.Call) and call_name(v) in ("list", "tuple", "str")):
+                return True
+        return False
+
+    def _used_after(self, loop, names, plain_only=False):
+        """names bound inside the loop that are read after it before any other binding"""
+        end = getattr(loop, "end_lineno", loop.lineno)
+        inside = {id(x) for x in ast.walk(loop)}
+        hit = set()
+        for nm in names:
+            binds = [b for b in ast.walk(loop) if isinstance(b, ast.Name) and isinstance(b.ctx, ast.Store) and b.id == nm]
+            if plain_only:
+                binds = [b for b in binds if isinstance(enclosing_stmt(b), (ast.Assign, ast.AnnAssign)) and
+                         not isinstance(getattr(b, "_parent", None), ast.comprehension)]
+            if not binds:
+                continue
+            later = min((b.lineno for b in ast.walk(self.sc.fn) if isinstance(b, ast.Name) and isinstance(b.ctx, ast.Store)
+                            and b.id == nm and id(b) not in inside and b.lineno > end), default=None)
+            for use in self.sc.loads.get(nm, []):
+                if id(use) in inside or use.lineno <= end:
+                    continue
+                if later is None or use.lineno < later or (use.lineno == later and isinstance(enclosing_stmt(use), ast.AugAssign)):
+                    hit.add(nm)
+        return hit
+
+
+def _origin(so, src, sc, depth=3):
+    """Where the unordered collection comes from: the expression with singly-defined local names resolved, a name with
+    several definitions replaced by the origins of its set-valued definitions, the other local names blanked."""
+    if isinstance(src, ast.Name) and src.id in so.tainted_dicts(sc) and not so.unordered(src, sc, 3, {id(src)}) is False and depth:
+        vals = [v for v in sc.values(src.id) if so.unordered(v, sc, 3)]
+        if not vals:
+            return "dict filled per element of " + _origin(so, so.tainted_dicts(sc)[src.id], sc, depth - 1)
+    if isinstance(src, ast.Call) and isinstance(src.func, ast.Attribute) and src.func.attr in ("items", "keys", "values") \
+            and isinstance(src.func.value, ast.Name) and src.func.value.id in so.tainted_dicts(sc) and depth:
+        return "dict filled per element of " + _origin(so, so.tainted_dicts(sc)[src.func.value.id], sc, depth - 1)
+    if isinstance(src, ast.Name) and len(sc.values(src.id)) > 1 and depth:
+        alts = sorted({_origin(so, v, sc, depth - 1) for v in sc.values(src.id) if so.unordered(v, sc, 3)})
+        if alts:
+            return " | ".join(alts)
+    r = sc.defs.resolve(src, depth=4, loops=True)
+    vocab = set()
+    for n in ast.walk(r):
+        if isinstance(n, ast.Attribute):
+            vocab.add("." + n.attr)
+        elif isinstance(n, ast.Name) and n.id != "__elem__" and (n.id in sc.params or not sc.is_local(n.id)):
+            vocab.add(n.id)
+    kind = "set display" if isinstance(r, (ast.Set, ast.SetComp)) else "dict" if isinstance(r, (ast.Dict, ast.DictComp)) else \
+        (call_name(r) + "()") if isinstance(r, ast.Call) else type(r).__name__
+    return f"{kind} over {' '.join(sorted(vocab))}"
+
+
+def r19a_sets(ctx):
+    rule = "R19a"
+    so = SetOrder(ctx)
     n_sites = 0
     for ref, fn in ctx.model.all_functions():
         if getattr(fn, "_fn", None) is not None:
             continue
-        for it, node in _set_iterations(fn):
-            owner = enclosing(it, FuncNode)
-            oref = f"{ref.split(':')[0]}:{owner._qual}" if owner is not None else ref
+        for src, node, sc in so.sites(fn):
             n_sites += 1
-            why = _benign_consumer(node)
-            frozen = SET_ITER_FROZEN.get((oref, U(it))) or SET_ITER_FROZEN.get((ref, U(it)))
-            if why:
-                ctx.ok(rule, it, f"set iteration `{short(it, 40)}`: {why}", fn=oref, key=f"{oref} {U(it)}")
+            oref = f"{ref.split(':')[0]}:{sc.fn._qual}"
+            origin = _origin(so, src, sc)
+            sinks = so.sinks_of_read(src, node, sc)
+            frozen = SET_ORDER_FROZEN.get((oref, origin))
+            key = f"{oref} {origin}"
+            if not sinks:
+                ctx.ok(rule, src, f"order of the set `{short(src, 40)}` is not observable: all consumers are order-free", fn=oref, key=key)
             elif frozen:
-                ctx.ok(rule, it, f"set iteration `{short(it, 40)}`: triaged - {frozen}", fn=oref, key=f"{oref} {U(it)}")
+                ctx.ok(rule, src, f"set `{short(src, 40)}` read in order: triaged - {frozen}", fn=oref, key=key)
             else:
-                ctx.bad(rule, it, f"iteration over the set `{short(it, 50)}` builds an ordered result "
-                        f"(`{short(enclosing_stmt(it), 80)}`): its order depends on the hash seed", fn=oref,
-                        key=f"set iteration {U(it)[:50]}")
-    ctx.floor(rule, "set iteration sites examined", n_sites, 15)
+                s, why = sinks[0]
+                ctx.bad(rule, src, f"the set `{short(src, 50)}` (origin `{origin}`) is read in iteration order and that order reaches "
+                        f"`{short(s, 70)}` ({why}; {len(sinks)} order-sensitive consumer(s)): the result depends on the hash seed",
+                        fn=oref, key=f"set order {origin[:60]}")
+    ctx.floor(rule, "ordered reads of sets examined", n_sites, 15)
+
+
+# ====================================================================== R19g
+# canonical sort key: decision table over a sample of indices (evaluated, not read)
+
+_SAMPLE_NAMES = {"occ": ("i", "j", "o", "i1", "j1", "i2", "k2", "i10", "j3"), "virt": ("a", "b", "h", "a1", "b1", "a2", "c10"),
+                 "general": ("p", "q", "p1", "q2", "p10")}
+
+
+def _index_obj(name, space, spin, tag):
+    o = Obj("indices:Index", f"{name}_{spin}#{tag}")
+    o.attrs.update(name=name, space=space, spin=spin, dummy_index=sym(f"dummy#{tag}"), space_and_spin=(space, spin))
+    return o
+
+
+def _expected_key(name, space, spin):
+    return (space[0], spin, int(name[1:]) if name[1:] else 0, name[0])
 
 
 def r19g(ctx):
     rule = "R19g"
     fn = ctx.model.fn("indices:sort_idx_canonical")
-    rets = common.returns_of(fn)
-    idx_ret = [r for r in rets if ("isinstance(idx, Index)", True) in conditions(r)]
-    ok = len(idx_ret) == 1 and isinstance(idx_ret[0].value, ast.Tuple)
-    comps = [U(e) for e in idx_ret[0].value.elts] if ok else []
-    want = ["idx.space[0]", "idx.spin", "int(idx.name[1:]) if idx.name[1:] else 0", "idx.name[0]"]
-    ctx.check(rule, fn, comps[:4] == want, "key = (space, spin, number, letter, tie-break)",
-              f"canonical key starts with {comps[:4]}; expected {want} before any tie-break", key="key prefix")
-    ctx.check(rule, fn, len(comps) >= 4 and all("hash(" not in c and "id(" not in c for c in comps[:4]), "identity components are hash free",
-              "hash in the identity part of the key", key="prefix hash free")
+    sx = Symex(ctx.model, inline=lambda q: True, what="sort_idx_canonical")
+    sample = [(n, sp, s) for sp, names in _SAMPLE_NAMES.items() for n in names for s in ("", "a", "b")]
+    keys = {}
+    for k, (n, sp, s) in enumerate(sample):
+        outs = sx.run(fn, lambda: dict(idx=_index_obj(n, sp, s, k)))
+        if len(outs) != 1 or outs[0].kind != "return":
+            ctx.bad(rule, fn, f"sort_idx_canonical(Index {n}, {sp}, '{s}') does not return one key: {outs}", key=f"key shape {n} {sp} {s}")
+            return
+        keys[(n, sp, s)] = outs[0].value
+    wrong, tied = [], []
+    n_pairs = 0
+    for x in sample:
+        for y in sample:
+            ex, ey = _expected_key(*x), _expected_key(*y)
+            if not ex < ey:
+                continue
+            n_pairs += 1
+            try:
+                lt = keys[x] < keys[y]
+            except TypeError:
+                tied.append((x, y))
+                continue
+            if lt is not True:
+                wrong.append((x, y))
+    ctx.floor(rule, "ordered pairs of sample indices", n_pairs, 500)
+    ctx.check(rule, fn, not wrong, f"{n_pairs} pairs of indices are ordered by (space, spin, number, letter)",
+              f"canonical key orders {len(wrong)} of {n_pairs} index pairs differently from (space, spin, number, letter), e.g. "
+              f"{wrong[0][0] if wrong else ''} is not sorted before {wrong[0][1] if wrong else ''}: keys "
+              f"{show(keys[wrong[0][0]]) if wrong else ''} / {show(keys[wrong[0][1]]) if wrong else ''}", key="key prefix")
+    ctx.check(rule, fn, not tied, "space, spin, number and letter decide the order before any tie-break",
+              f"{len(tied)} pairs of indices with different (space, spin, number, letter) are only separated by the tie-break "
+              f"(e.g. {tied[0][0] if tied else ''} / {tied[0][1] if tied else ''}): their order depends on the creation history",
+              key="prefix decides")
+    # the tie-break part of an Index key and the key of a non-Index are free of hash()/id() on every path
+    bad = []
+    for arg in (_index_obj("i3", "occ", "", "t"), sym("X")):
+        for o in sx.run(fn, lambda: dict(idx=arg)):
+            for c in calls([o.value] + list(o.effects)):
+                nm = c.args[0] if c.op == "call" else c.args[1]
+                if nm in SEED_CALLS:
+                    bad.append(show(c))
+    ctx.check(rule, fn, not bad, "evaluated key free of hash()/id()", f"the evaluated sort key contains {bad[:2]}: "
+              "it depends on PYTHONHASHSEED / object addresses", key="prefix hash free")
 
 
-# ---------------------------------------------------------------------- D4
+# ====================================================================== R19b
+# The derivation layer evaluated with a model of the index registry: generic requests hand out fresh index objects, named
+# requests hand out one object per name, every call of an uncached wavefunction method is a distinguishable instance.
+
+GS, IS, SM, PR, OP = dx.GS, dx.IS, dx.SM, dx.PR, dx.OP
+UNCACHED = (GS + ".psi", GS + ".overlap", GS + ".norm_factor")
+PURE_NUMBER_CALLS = {"Rational", "sqrt", "factorial", "sympify", "len", "Integer", "nsimplify"}
+TENSOR_CTORS = ("AntiSymmetricTensor", "SymmetricTensor", "Amplitude", "NonSymmetricTensor")
 
 
-def d4(ctx):
+def is_cached(fn):
+    return any(d in CACHE_DECOS for d in common.decorators(fn))
+
+
+def _split_names(s):
+    out = []
+    for ch in s:
+        if ch.isdigit() and out:
+            out[-1] += ch
+        elif ch != ",":
+            out.append(ch)
+    return out
+
+
+class IndexModel:
+    """Reference model of ``Indices``: one object per (name, spin); generic requests never repeat a name."""
+
+    def __init__(self):
+        self.n = 0
+        self.objs = {}
+
+    def reset(self):
+        self.n = 0
+        self.objs = {}
+
+    def named(self, name, spin=""):
+        space = "occ" if name[0] in "ijklmno" else "virt" if name[0] in "abcdefgh" else "general"
+        if (name, spin) not in self.objs:
+            o = Obj("indices:Index", name + (f"_{spin}" if spin else ""))
+            o.attrs.update(name=name, space=space, spin=spin, space_and_spin=(space, spin))
+            self.objs[(name, spin)] = o
+        return self.objs[(name, spin)]
+
+    def fresh(self, space, spin=""):
+        self.n += 1
+        name = {"occ": "i", "virt": "a", "general": "p"}[space] + str(100 + self.n)
+        return self.named(name, spin)
+
+    def hooks(self):
+        def names_arg(a, kw, pname):
+            a = [x for x in a if not isinstance(x, T) and not (isinstance(x, Obj) and x.cls != "indices:Index")]
+            v = a[0] if a else kw.get(pname)
+            sp = a[1] if len(a) > 1 else kw.get("spins")
+            return v, sp
+
+        def get_indices(sx, a, kw):
+            ind, spins = names_arg(a, kw, "indices")
+            if isinstance(ind, str):
+                ind = _split_names(ind)
+            if not isinstance(ind, (list, tuple)) or not all(isinstance(x, str) for x in ind):
+                return NotImplemented
+            ret = {}
+            for k, nm in enumerate(ind):
+                sp = spins[k] if spins else ""
+                sx.effects.append(T("named_request", nm))
+                o = self.named(nm, sp)
+                ret.setdefault((o.attrs["space"], sp), []).append(o)
+            return ret
+
+        def get_symbols(sx, a, kw):
+            ind, spins = names_arg(a, kw, "indices")
+            if isinstance(ind, Obj):
+                return [ind]
+            if isinstance(ind, (list, tuple)) and ind and all(isinstance(x, Obj) for x in ind):
+                return list(ind)
+            if isinstance(ind, str):
+                ind = _split_names(ind)
+            if not isinstance(ind, (list, tuple)) or not all(isinstance(x, str) for x in ind):
+                return NotImplemented
+            out = []
+            for k, nm in enumerate(ind):
+                sx.effects.append(T("named_request", nm))
+                out.append(self.named(nm, spins[k] if spins else ""))
+            return out
+
+        def get_generic_indices(sx, a, kw):
+            ret = {}
+            for key, n in kw.items():
+                if not isinstance(n, int):
+                    return NotImplemented
+                if n == 0:
+                    continue
+                space, _, spin = key.partition("_")
+                if space not in ("occ", "virt", "general"):
+                    return NotImplemented
+                objs = [self.fresh(space, spin) for _ in range(n)]
+                for o in objs:
+                    sx.effects.append(T("generic_request", o.name))
+                ret[(space, spin)] = objs
+            return ret
+
+        def generic_indices_from_space(sx, a, kw):
+            s = a[0] if a else kw.get("space_str")
+            if not isinstance(s, str):
+                return NotImplemented
+            r = get_generic_indices(sx, [], {"occ": s.count("h"), "virt": s.count("p")})
+            return r.get(("occ", ""), []) + r.get(("virt", ""), [])
+
+        return {"get_indices": get_indices, "Indices.get_indices": get_indices, "get_symbols": get_symbols,
+                "get_generic_indices": get_generic_indices, "Indices.get_generic_indices": get_generic_indices,
+                "generic_indices_from_space": generic_indices_from_space}
+
+
+def _taylor(order, min_order, tag):
+    """What expand_norm_factor / expand_S_taylor hand out: (coefficient, compositions of the order into e parts >= min_order)."""
+    if order < min_order:
+        return [(1, [(order,)])]
+    return [(sym(f"{tag}{e}"), dx.compositions(order, e, lo=min_order)) for e in range(1, order // min_order + 1)]
+
+
+class DerivEval:
+    def __init__(self, ctx):
+        self.ctx = ctx
+        self.im = IndexModel()
+        self.inst = 0
+        self.uncached = [r for r in UNCACHED if not is_cached(ctx.model.fn(r))]
+
+    def _fresh_hook(self, ref):
+        fn = self.ctx.model.fn(ref)
+        name = ref.split(".")[-1]
+
+        def hook(sx, a, kw):
+            b = sx.bind(fn, a, kw, False, True, True)
+            b.pop("self", None)
+            self.inst += 1
+            return T("fresh", name, self.inst, tuple((k, _freeze(v)) for k, v in b.items()))
+        return hook
+
+    def sx(self, what, scen, variant="pp"):
+        hk = self.im.hooks()
+        for ref in self.uncached:
+            hk[ref.split(":")[1].split(".", 1)[0] + "." + ref.split(".")[-1]] = self._fresh_hook(ref)
+
+        def tay(tag):
+            def h(sx, a, kw):
+                a = [x for x in a if not isinstance(x, Obj)]
+                order = kw.get("order", a[0] if a else None)
+                mo = kw.get("min_order", a[1] if len(a) > 1 else 2)
+                if not isinstance(order, int) or not isinstance(mo, int):
+                    return NotImplemented
+                return _taylor(order, mo, tag)
+            return h
+        hk["expand_norm_factor"] = tay("c")
+        hk["expand_S_taylor"] = tay("s")
+        # no call-event tags: two requests of a cached method with equal arguments are the same object here
+        sx = dx.make_sx(self.ctx, what, scen, extra_inline={SM + ".block_order", SM + ".max_ptorder_spaces"}, hooks=hk,
+                        max_paths=20000, occurrence=lambda name: False)
+        base = scen.reset
+
+        def reset(s):
+            base(s)
+            self.im.reset()
+            self.inst = 0
+        sx.on_start = reset
+        return sx
+
+    def objects(self, scen):
+        h, gs, isr = scen.objects()
+        sm = Obj(SM, "sm", gs=gs, isr=isr, h=h, indices=Obj("indices:Indices", "sm.indices"))
+        pr = Obj(PR, "pr", gs=gs, l_isr=isr, r_isr=isr, l_m=sm, r_m=sm, h=h)
+        h.attrs["_indices"] = Obj("indices:Indices", "h.indices")
+        return {GS: gs, IS: isr, SM: sm, PR: pr, OP: h}
+
+
+def _scenarios(tier):
+    """(function, arguments) evaluated by R19b; ``thorough`` lists only what is evaluated in addition to ``quick``"""
+    I1, I2, I3 = "k5c5", "l6d6", "k5l5c5d5"
+    Q, X = [], []
+    for o in range(0, 5):
+        S = Q if o <= 3 else X
+        S.append((GS + ".energy", dict(order=o)))
+        S.append((GS + ".overlap", dict(order=o)))
+        S.append((GS + ".expectation_value", dict(order=o, n_particles=1)))
+        for bk in ("bra", "ket"):
+            S.append((IS + ".precursor", dict(order=o, space="ph", braket=bk, indices=I1)))
+            if o <= 2:
+                (Q if o <= 1 else X).append((IS + ".precursor", dict(order=o, space="pphh", braket=bk, indices=I3)))
+            S.append((IS + ".intermediate_state", dict(order=o, space="ph", braket=bk, indices=I1)))
+            if o >= 1:
+                S.append((GS + ".psi", dict(order=o, braket=bk)))
+        S.append((IS + ".overlap_precursor", dict(order=o, block="ph,ph", indices=f"{I1},{I2}")))
+        S.append((IS + ".overlap_isr", dict(order=o, block="ph,ph", indices=f"{I1},{I2}")))
+        if o >= 1:
+            S.append((GS + ".mp_amplitude", dict(order=o, space="ph", indices=I1)))
+            S.append((GS + ".mp_amplitude", dict(order=o, space="pphh", indices=I3)))
+            S.append((GS + ".amplitude_residual", dict(order=o, space="pphh", indices=I3)))
+    for o in range(0, 7):       # order 6 is the first with a product of three overlaps; the path count grows ~50x per order
+        Q.append((GS + ".norm_factor", dict(order=o)))
+    for o in range(0, 8):
+        (Q if o <= 6 else X).append((IS + ".s_root", dict(order=o, block="ph,ph", indices=f"{I1},{I2}")))
+    Q.append((IS + ".amplitude_vector", dict(indices=I1, lr="right")))
+    Q.append((IS + ".amplitude_vector", dict(indices=I3, lr="left")))
+    for o in range(0, 4):
+        S = Q if o <= 2 else X
+        S.append((SM + ".isr_matrix_block", dict(order=o, block="ph,ph", indices=f"{I1},{I2}", subtract_gs=True)))
+        S.append((SM + ".precursor_matrix_block", dict(order=o, block="ph,pphh", indices=f"{I1},l6m6d6e6", subtract_gs=True)))
+        S.append((SM + ".mvp_block_order", dict(order=o, space="ph", block="ph,ph", indices=I1, subtract_gs=True)))
+        S.append((SM + ".expectation_value_block_order", dict(order=o, block="ph,ph", subtract_gs=True)))
+        S.append((SM + ".mvp", dict(adc_order=o, space="ph", indices=I1, order=None, subtract_gs=True)))
+        S.append((SM + ".expectation_value", dict(adc_order=o, order=None, subtract_gs=True)))
+        S.append((PR + ".expec_block_contribution", dict(order=o, block="ph,ph", n_particles=1, subtract_gs=True)))
+        S.append((PR + ".expectation_value", dict(adc_order=o, n_particles=1, order=None, subtract_gs=True)))
+        S.append((PR + ".trans_moment_space", dict(order=o, space="ph", n_create=None, n_annihilate=None, lr_isr="left",
+                                                  subtract_gs=True)))
+        S.append((PR + ".trans_moment", dict(adc_order=o, n_create=None, n_annihilate=None, order=None, lr_isr="left",
+                                            subtract_gs=True)))
+        S.append((PR + ".operator", dict(order=o, n_create=1, n_annihilate=1, subtract_gs=True)))
+    Q.append((OP + ".operator", dict(n_create=1, n_annihilate=1)))
+    Q.append((OP + ".operator", dict(n_create=2, n_annihilate=2)))
+    X.append((PR + ".expec_block_contribution", dict(order=1, block="ph,pphh", n_particles=1, subtract_gs=True)))
+    X.append((SM + ".isr_matrix_block", dict(order=1, block="pphh,ph", indices=f"{I3},{I2}", subtract_gs=False)))
+    return Q if tier == "quick" else X
+
+
+def _carries_indices(f):
+    """A factor that stands for an expression with (contracted) indices: contains a call that is not pure arithmetic."""
+    if isinstance(f, T) and f.op in ("attr", "item"):
+        return True
+    for t in subterms(f):
+        if t.op == "fresh":
+            return True
+        if t.op in ("call", "mcall"):
+            nm = t.args[0] if t.op == "call" else t.args[1]
+            if nm not in PURE_NUMBER_CALLS:
+                return True
+    return False
+
+
+def _products(value):
+    """Every product that occurs in an evaluated value (also inside the arguments of wicks etc.), fully distributed."""
+    v = strip(value, dx.TRANSPARENT_CALLS, dx.TRANSPARENT_MCALLS, dx.TRANSPARENT_ATTRS)
+    seen = set()
+    for t in subterms(v):
+        if t.op in ("mul", "pow") and t not in seen:
+            seen.add(t)
+            for c, fs in expand_products(t):
+                yield fs
+
+
+def _shared(fs):
+    """Index sources that occur more than once in one product: identical index-carrying factors, powers of them and
+    instances of uncached wavefunctions that sit in two factors."""
+    out = []
+    count = {}
+    where = {}
+    for k, f in enumerate(fs):
+        if not isinstance(f, T):
+            continue
+        if f.op == "pow" and isinstance(f.args[1], int) and f.args[1] >= 2 and _carries_indices(f.args[0]):
+            out.append(("power", f))
+        if _carries_indices(f):
+            count[f] = count.get(f, 0) + 1
+        for t in set(x for x in subterms(f) if x.op == "fresh"):
+            where.setdefault(t, set()).add(k)
+    out.extend(("factor twice", f) for f, c in count.items() if c > 1)
+    out.extend(("instance in two factors", t) for t, ks in where.items() if len(ks) > 1 and count.get(t, 0) <= 1)
+    return out
+
+
+def r19b(ctx, tier="quick"):
     rule = "R19b"
-    gs = "groundstate:GroundState."
-    for m in ("psi", "overlap", "norm_factor"):
-        fn = ctx.model.fn(gs + m)
-        ctx.check(rule, fn, not any(d in CACHE_DECOS for d in common.decorators(fn)), f"{m} is not cached",
+    # the wavefunctions / norm factors are requested afresh: no memoising decorator
+    for ref in UNCACHED:
+        fn = ctx.model.fn(ref)
+        m = ref.split(".")[-1]
+        ctx.check(rule, fn, not is_cached(fn), f"{m} is not cached",
                   f"GroundState.{m} is cached: repeated factors in one product would share their contracted indices",
                   key=f"{m} uncached")
-        lit = [c for c in calls_in(fn) if call_name(c) in ("get_symbols", "get_indices") and c.args and isinstance(c.args[0], ast.Constant)]
-        ctx.check(rule, fn, not lit, f"{m}: no literally named summation index", f"{m} requests literally named indices "
-                  f"`{U(lit[0]) if lit else ''}`", key=f"{m} literal")
-    psi = ctx.model.fn(gs + "psi")
-    gi = [c for c in calls_in(psi) if call_name(c) == "get_generic_indices"]
-    ctx.check(rule, psi, len(gi) == 1, "psi draws its summation indices from get_generic_indices", "psi index source changed", key="psi generic")
-    # norm_factor -> overlap -> psi chain is uncached all the way
-    nf = ctx.model.fn(gs + "norm_factor")
-    ctx.check(rule, nf, any(call_name(c) == "overlap" for c in calls_in(nf)), "norm_factor built from (uncached) overlaps",
-              "norm_factor no longer built from overlap", key="norm chain")
-    ov = ctx.model.fn(gs + "overlap")
-    ctx.check(rule, ov, sum(1 for c in calls_in(ov) if call_name(c) == "psi") == 2, "overlap built from fresh wavefunctions",
-              "overlap no longer requests its wavefunctions itself", key="overlap chain")
-    # multiplicative accumulation of one method in a loop
-    n = 0
-    for mod in ("groundstate", "intermediate_states", "secular_matrix", "properties"):
-        m = ctx.model.module(mod)
-        for q, fn in m.functions.items():
-            for a in walk_fn(fn, nested=False):
-                if isinstance(a, ast.AugAssign) and isinstance(a.op, ast.Mult) and isinstance(a.value, ast.Call) \
-                        and isinstance(a.value.func, ast.Attribute) and U(a.value.func.value).startswith("self") \
-                        and enclosing(a, (ast.For, ast.While)) is not None:
-                    n += 1
-                    callee = call_name(a.value)
-                    if callee in ("overlap",):
-                        ctx.ok(rule, a, f"{q}: repeated factor `{callee}` is uncached", fn=f"{mod}:{q}")
-                    elif callee == "overlap_precursor" and q.endswith("s_root"):
-                        lp = enclosing(a, ast.For)
-                        adv = any(isinstance(s, ast.Delete) and U(s.targets[0]) == "relevant_idx[0]" for s in lp.body)
-                        ctx.check(rule, a, adv and "relevant_idx" in U(kwarg(a.value, "indices", 2)),
-                                  "s_root: cached factor requested with index strings that advance every iteration",
-                                  "s_root multiplies a cached overlap_precursor with non-advancing indices", fn=f"{mod}:{q}",
-                                  key="s_root advance")
-                    else:
-                        ctx.bad(rule, a, f"{q}: `{callee}` is multiplied repeatedly in a loop; unless it is uncached (psi, overlap, "
-                                "norm_factor) the factors share their contracted indices", fn=f"{mod}:{q}", key=f"{q} repeated {callee}")
-    ctx.floor(rule, "multiplicative accumulations in the derivation layer", n, 0)
-    # the repeated factors are requested afresh for every element of a Taylor term
-    from . import c02
-    c02.taylor_consumer(ctx, rule, "groundstate:GroundState.norm_factor", "overlap")
-    c02.taylor_consumer(ctx, rule, "intermediate_states:IntermediateStates.s_root", "overlap_precursor")
-    # cached derivation methods: named indices only for the caller-supplied strings
-    for mod in ("groundstate", "intermediate_states", "secular_matrix", "properties"):
-        m = ctx.model.module(mod)
-        for q, fn in m.functions.items():
-            if not any(d in CACHE_DECOS for d in common.decorators(fn)):
+    de = DerivEval(ctx)
+    n_paths = n_prod = 0
+    if tier == "quick":
+        # every cache of the derivation layer is covered by a scenario (a new cached method is a new sharing site)
+        covered = {ref for ref, _ in _scenarios("quick")}
+        for mod, cls in ((m.split(":")[0], m.split(":")[1]) for m in (GS, IS, SM, PR, OP)):
+            for q, f in ctx.model.module(mod).functions.items():
+                if q.startswith(cls + ".") and q.count(".") == 1 and "cached_member" in common.decorators(f) and f"{mod}:{q}" not in covered:
+                    raise AnalysisError(f"R19b: the cached derivation method {mod}:{q} is not evaluated by any scenario "
+                                        "(a new cache is a new place where contracted indices can be shared)")
+    for ref, args in _scenarios(tier):
+        fn = ctx.model.fn(ref)
+        cls, meth = ref.rsplit(".", 1)
+        lab = ref.split(":")[1]
+        what = f"{lab}({', '.join(f'{k}={v}' for k, v in args.items() if k in ('order', 'adc_order', 'space', 'block', 'braket'))})"
+        scen = dx.Scenario()
+        sx = de.sx(what, scen)
+        outs = sx.run(fn, lambda: dict(self=de.objects(scen)[cls], **args))
+        rets = [o for o in outs if o.kind == "return"]
+        if not rets:
+            raise AnalysisError(f"R19b: {what} has no returning path ({outs[:2]})")
+        supplied = set()
+        for v in args.values():
+            if isinstance(v, str) and v not in ("bra", "ket", "left", "right") and not set(v) <= set("ph,"):
+                supplied.update(_split_names(v))
+        shared, foreign, stale, mutable = [], [], [], []
+        for o in rets:
+            n_paths += 1
+            generic = {e.args[0] for e in o.effects if isinstance(e, T) and e.op == "generic_request"}
+            for e in o.effects:
+                if e.op == "named_request" and e.args[0] not in supplied and e.args[0] not in generic:
+                    foreign.append(e.args[0])
+            for fs in _products(o.value):
+                n_prod += 1
+                shared.extend(_shared(fs))
+            if meth == "psi":
+                # every index of a wavefunction comes from the generic pool of this very call
+                for t in subterms(o.value):
+                    if t.op == "call" and t.args[0] in TENSOR_CTORS:
+                        a = args_of(t)
+                        for s in subterms([v for k, v in a.items() if k not in ("name", 0, "bra_ket_sym")]):
+                            if s.op == "sym" and s.args[0] not in generic:
+                                stale.append(show(s))
+            if is_cached(fn):
+                vals = o.value if isinstance(o.value, tuple) else (o.value,)
+                for v in vals:
+                    if isinstance(v, (list, dict, set)) or (isinstance(v, T) and v.op == "call" and v.args[0] in MUTABLE_CTORS):
+                        mutable.append(show(v)[:120])
+        key = f"{lab} {' '.join(str(v) for v in args.values())}"
+        kind = shared[0][0] if shared else ""
+        ctx.check(rule, fn, not shared, f"{what}: no product contains an index-carrying factor twice",
+                  f"{what}: a product contains the same index-carrying object twice ({kind}): {show(shared[0][1])[:300] if shared else ''}"
+                  " - both factors are one object with the same contracted indices", key=f"shared {key}")
+        if is_cached(fn):
+            ctx.check("R19f", fn, not mutable, f"{lab}: cached result is an immutable sympy object",
+                      f"{what} caches and returns the mutable container {mutable[:1]}: a caller that modifies it changes the result "
+                      "of every later request", key=f"{lab} immutable")
+        if True:
+            ctx.check(rule, fn, not foreign, f"{what}: named indices are only requested for the caller-supplied strings / generated names",
+                      f"{what} requests the literally named indices {sorted(set(foreign))}: every later call returns an expression over the "
+                      "same index objects, which collide with these names in the caller's expression", key=f"named {key}")
+        if meth == "psi":
+            ctx.check(rule, fn, not stale, f"{what}: all tensor indices are drawn from get_generic_indices by this call",
+                      f"{what}: tensor indices {sorted(set(stale))} are not generic indices of this request", key=f"psi generic {key}")
+    ctx.floor(rule, "evaluated paths of the derivation layer", n_paths, 300 if tier == "quick" else 100)
+    ctx.floor(rule, "products examined for shared index sources", n_prod, 1000 if tier == "quick" else 300)
+
+
+# ====================================================================== R19e
+# History independence of the index registry: all request histories up to a bounded depth are evaluated on the code of
+# Indices (concrete state, evaluated by sa.symex) and compared with the two laws the derivations rely on:
+#   stability: a named request returns the object that any earlier request handed out for that (name, spin);
+#   freshness: a generic request returns objects that no earlier request of the history (named or generic) handed out.
+
+def _registry(ctx, sx):
+    cls = ctx.model.cls("indices:Indices")
+    mod = ctx.model.module("indices")
+    reg = Obj("indices:Indices", "registry")
+    sx.frames, sx.module, sx.prefix, sx.decisions, sx.facts, sx.path, sx.effects, sx.steps, sx.depth = [{}], mod, [], [], {}, [], [], 0, 0
+    for st in cls.body:
+        if isinstance(st, ast.Assign) and len(st.targets) == 1 and isinstance(st.targets[0], ast.Name):
+            reg.attrs[st.targets[0].id] = sx.ev(st.value)
+        elif isinstance(st, ast.AnnAssign) and isinstance(st.target, ast.Name) and st.value is not None:
+            reg.attrs[st.target.id] = sx.ev(st.value)
+    outs = sx.run(ctx.model.fn("indices:Indices.__init__"), lambda: dict(self=reg))
+    if len(outs) != 1 or outs[0].kind != "return":
+        raise AnalysisError(f"R19e: Indices.__init__ does not evaluate to one state: {outs}")
+    return reg
+
+
+def r19e(ctx, depth=3):
+    rule = "R19e"
+    gi = ctx.model.fn("indices:Indices.get_indices")
+    gg = ctx.model.fn("indices:Indices.get_generic_indices")
+    counter = [0]
+
+    def new_symbol(sx, a, kw):
+        a = [x for x in a if not (isinstance(x, Obj) and x.cls == "indices:Indices")]
+        name = a[0] if a else kw.get("name")
+        counter[0] += 1
+        # a concrete, unique value: the registry code only stores, compares (`is None`) and returns index objects
+        return ("Index", name, a[1] if len(a) > 1 else kw.get("space"), a[2] if len(a) > 2 else kw.get("spin", ""), counter[0])
+    sx = Symex(ctx.model, inline=lambda q: q.startswith("indices:"), hooks={"_new_symbol": new_symbol, "Indices._new_symbol": new_symbol},
+               what="Indices", max_paths=64)
+    # the request alphabet: generic requests of one and two occupied indices and explicit requests of names around the
+    # first generation of generic names (i3 j3 ...), of an unnumbered name and of a name of the next generation
+    ops = [("generic", 1), ("generic", 2), ("named", "i3"), ("named", "j3"), ("named", "k3"), ("named", "i"), ("named", "i4"),
+           ("named", "j3k3")]
+    import itertools
+    n_hist = n_req = 0
+    stale, unstable, failed = [], [], []
+    for L in range(1, depth + 1):
+        for hist in itertools.product(ops, repeat=L):
+            reg = _registry(ctx, sx)
+            handed = {}     # id(object) -> (name, how)
+            by_name = {}
+            n_hist += 1
+            ok = True
+            for kind, arg in hist:
+                n_req += 1
+                if kind == "generic":
+                    outs = sx.run(gg, lambda: dict(self=reg, kwargs={"occ": arg}))
+                else:
+                    outs = sx.run(gi, lambda: dict(self=reg, indices=arg, spins=None))
+                if len(outs) != 1 or outs[0].kind != "return" or not isinstance(outs[0].value, dict):
+                    failed.append((hist, outs))
+                    ok = False
+                    break
+                objs = [o for v in outs[0].value.values() for o in v]
+                if kind == "generic" and len(objs) != arg:
+                    failed.append((hist, f"{len(objs)} objects for a request of {arg}"))
+                for o in objs:
+                    nm = o[1] if isinstance(o, tuple) and len(o) == 5 and o[0] == "Index" else None
+                    if nm is None:
+                        failed.append((hist, f"{show(o)} handed out instead of an index"))
+                        continue
+                    if kind == "generic" and id(o) in handed:
+                        stale.append((hist, nm, handed[id(o)]))
+                    if kind == "named" and nm in by_name and by_name[nm] is not o:
+                        unstable.append((hist, nm))
+                    if kind == "generic" and nm in by_name and by_name[nm] is not o:
+                        unstable.append((hist, nm))
+                    handed.setdefault(id(o), (nm, kind))
+                    by_name.setdefault(nm, o)
+            if not ok:
                 continue
-            params = {a.arg for a in fn.args.args}
-            for c in calls_in(fn):
-                if call_name(c) in ("get_indices", "get_symbols") and c.args:
-                    a0 = c.args[0]
-                    src = U(a0)
-                    ok = (isinstance(a0, ast.Name) and (a0.id in params or a0.id in ("idx", "mvp_idx", "left_idx", "right_idx", "idx_pre",
-                                                                                     "idx_isr", "indices")))
-                    ctx.check(rule, c, ok and not isinstance(a0, ast.Constant), f"{q}: named indices only for the supplied strings",
-                              f"{q} (cached) requests indices `{src}` that are not the caller-supplied target strings: every later "
-                              "call returns an expression over the same index objects", fn=f"{mod}:{q}", key=f"{q} named {src}")
-    # operators: literal p q r s only in the Hamiltonians, generic in Operators.operator
-    op = ctx.model.fn("operators:Operators.operator")
-    ctx.check(rule, op, any(call_name(c) == "get_generic_indices" for c in calls_in(op)) and
-              not any(call_name(c) == "get_indices" for c in calls_in(op)), "Operators.operator uses generic indices",
-              "Operators.operator uses literally named indices although it is cached", key="operator generic")
-    # no product with two identical calls of a cached method
-    cached = set()
-    for mod in ("groundstate", "intermediate_states", "secular_matrix", "properties", "operators"):
-        for q, fn in ctx.model.module(mod).functions.items():
-            if any(d in CACHE_DECOS for d in common.decorators(fn)):
-                cached.add(q.split(".")[-1])
-    from .deriv import flatten_mult
-    n_prod = 0
-    for mod in ("groundstate", "intermediate_states", "secular_matrix", "properties"):
-        for q, fn in ctx.model.module(mod).functions.items():
-            for b in walk_fn(fn, nested=False):
-                if isinstance(b, ast.BinOp) and isinstance(b.op, ast.Mult) and not (
-                        isinstance(b._parent, ast.BinOp) and isinstance(b._parent.op, ast.Mult)):
-                    fs = [f for f in flatten_mult(b) if isinstance(f, ast.Call) and call_name(f) in cached]
-                    n_prod += 1
-                    texts = [U(f) for f in fs]
-                    dup = [t for t in set(texts) if texts.count(t) > 1]
-                    ctx.check(rule, b, not dup, f"{q}: no cached factor twice with identical arguments",
-                              f"{q}: product contains the cached call `{dup[0][:70] if dup else ''}` twice: both factors are the "
-                              "same object with the same contracted indices", fn=f"{mod}:{q}", key=f"{q} dup {dup[0][:40] if dup else ''}")
-    ctx.floor(rule, "products examined for duplicated cached factors", n_prod, 16)
+
+    def hs(h):
+        return " ; ".join(f"generic(occ={a})" if k == "generic" else f"get_indices('{a}')" for k, a in h)
+    ctx.floor(rule, "request histories evaluated on Indices", n_hist, 500)
+    ctx.check(rule, gg, not failed, f"{n_hist} request histories ({n_req} requests) evaluate to index dictionaries",
+              f"history `{hs(failed[0][0]) if failed else ''}` does not return the requested indices: {failed[0][1] if failed else ''}",
+              key="histories evaluate")
+    ctx.check(rule, gg, not stale, "a generic request never hands out an object that an earlier request of the history handed out",
+              f"after `{hs(stale[0][0][:-1]) if stale else ''}` the request `{hs(stale[0][0][-1:]) if stale else ''}` hands out the index "
+              f"{stale[0][1] if stale else ''}, which was already handed out ({stale[0][2][1] if stale else ''} request): contracted "
+              f"indices collide with indices in use ({len(stale)} such histories)", key="generic fresh")
+    ctx.check(rule, gi, not unstable, "one object per index name whatever the history",
+              f"history `{hs(unstable[0][0]) if unstable else ''}` yields two different objects for the name {unstable[0][1] if unstable else ''}",
+              key="named stable")
 
 
-# ---------------------------------------------------------------------- R19c / R19d
+# ====================================================================== R19c
+# Provenance of string literals: no literal that spells a default tensor name reaches a position where a tensor name
+# is expected (constructor name, comparison with / lookup by / prefix test of a tensor name, a tensor-name parameter).
+
+NAME_PARAMS = ("t_name", "t_string", "tensor_name")
+NAME_MODULES = ("tensor_names", "sympy_objects")      # here a parameter called `name` is a tensor name
+MAX_PATTERNS = 64
 
 
 def _defaults(ctx):
+    """field -> default of TensorNames, read from the class body by evaluation of the annotated assignments"""
     cls = ctx.model.cls("tensor_names:TensorNames")
     out = {}
     for n in cls.body:
-        if isinstance(n, ast.AnnAssign) and isinstance(n.value, ast.Constant):
-            out[U(n.target)] = n.value.value
-    if len(out) < 8:
+        if isinstance(n, ast.AnnAssign) and isinstance(n.target, ast.Name) and isinstance(n.value, ast.Constant) \
+                and isinstance(n.value.value, str):
+            out[n.target.id] = n.value.value
+    if len(out) < 8 or "gs_amplitude" not in out or "gs_density" not in out:
         raise AnalysisError("TensorNames defaults not found")
     return out
 
 
+class NameFlow:
+    def __init__(self, ctx):
+        self.ctx = ctx
+        self.cg = call_graph(ctx)
+        self.defaults = _defaults(ctx)
+        self.vals = set(self.defaults.values())
+        self.t, self.p = self.defaults["gs_amplitude"], self.defaults["gs_density"]
+        self._scopes = {}
+
+    def scope(self, node):
+        fn = node if isinstance(node, FuncNode) else enclosing(node, FuncNode)
+        if fn is None:
+            return None
+        if id(fn) not in self._scopes:
+            self._scopes[id(fn)] = _Scope(fn, self.cg.defs(fn))
+        return self._scopes[id(fn)]
+
+    # ---------------------------------------------------------------- literals
+    def default_like(self, s):
+        if s in self.vals:
+            return True
+        if s.startswith(self.t) and s != self.t:
+            rest = s[len(self.t):]
+            rest = rest[:-2] if rest.endswith("cc") else rest
+            if rest == "" or rest.isdigit():
+                return True
+        if s.startswith(self.p) and s[len(self.p):].isdigit():
+            return True
+        return False
+
+    def flagged(self, pat):
+        if all(isinstance(x, str) for x in pat):
+            return self.default_like("".join(pat))
+        head = pat[0] if pat and isinstance(pat[0], str) else ""
+        if not head:
+            return False
+        if all(x is None for x in pat[1:]) and (head in self.vals or head.rstrip("0123456789") in (self.t, self.p)):
+            return True     # default name followed by a computed extension (order, cc, ...)
+        return False
+
+    @staticmethod
+    def _cat(a, b):
+        out = []
+        for x in a:
+            for y in b:
+                z = list(x)
+                for part in y:
+                    if isinstance(part, str) and z and isinstance(z[-1], str):
+                        z[-1] += part
+                    elif part is None and z and z[-1] is None:
+                        pass
+                    else:
+                        z.append(part)
+                out.append(tuple(z))
+                if len(out) > MAX_PATTERNS:
+                    return out
+        return out
+
+    def lits(self, e, depth=5, seen=None):
+        """patterns of the strings an expression may evaluate to: tuples of literal parts and None (unknown)"""
+        seen = set() if seen is None else seen
+        unknown = [(None,)]
+        if e is None or depth < 0 or id(e) in seen:
+            return unknown
+        seen = seen | {id(e)}
+        if isinstance(e, ast.Constant):
+            return [(e.value,)] if isinstance(e.value, str) else unknown
+        if isinstance(e, ast.JoinedStr):
+            acc = [()]
+            for v in e.values:
+                if isinstance(v, ast.Constant):
+                    part = [(str(v.value),)]
+                elif isinstance(v, ast.FormattedValue) and v.format_spec is None and v.conversion == -1:
+                    part = self.lits(v.value, depth - 1, seen)
+                else:
+                    part = unknown
+                acc = self._cat(acc, part)
+            return acc
+        if isinstance(e, ast.BinOp) and isinstance(e.op, ast.Add):
+            return self._cat(self.lits(e.left, depth - 1, seen), self.lits(e.right, depth - 1, seen))
+        if isinstance(e, ast.BinOp) and isinstance(e.op, ast.Mod):
+            out = []
+            for pat in self.lits(e.left, depth - 1, seen):
+                if pat and isinstance(pat[0], str) and "%" in pat[0]:
+                    out.append((pat[0].split("%")[0], None))
+                else:
+                    out.append((None,))
+            return out
+        if isinstance(e, ast.IfExp):
+            return self.lits(e.body, depth - 1, seen) + self.lits(e.orelse, depth - 1, seen)
+        if isinstance(e, ast.BoolOp):
+            return [p for v in e.values for p in self.lits(v, depth - 1, seen)]
+        if isinstance(e, ast.NamedExpr):
+            return self.lits(e.value, depth - 1, seen)
+        if isinstance(e, ast.Call) and isinstance(e.func, ast.Attribute) and e.func.attr == "format":
+            out = []
+            for pat in self.lits(e.func.value, depth - 1, seen):
+                if pat and isinstance(pat[0], str) and "{" in pat[0]:
+                    out.append((pat[0].split("{")[0], None))
+                else:
+                    out.append((None,))
+            return out
+        if isinstance(e, ast.Call) and isinstance(e.func, ast.Name) and e.func.id == "str" and len(e.args) == 1:
+            return self.lits(e.args[0], depth - 1, seen) if isinstance(e.args[0], ast.Constant) and isinstance(e.args[0].value, str) else unknown
+        if isinstance(e, ast.Name):
+            sc = self.scope(e)
+            while sc is not None:
+                b = sc.defs.all_defs(e.id)
+                if b:
+                    out = []
+                    for kind, v in b:
+                        if kind == "assign" and v is not None:
+                            out.extend(self.lits(v, depth - 1, seen))
+                        elif kind == "param":
+                            out.extend(self._param_default(sc.fn, e.id, depth, seen))
+                        else:
+                            out.extend(unknown)
+                    return out[:MAX_PATTERNS]
+                sc = self.scope(sc.fn._parent) if getattr(sc.fn, "_parent", None) is not None else None
+            m = e._module if hasattr(e, "_module") else None
+            if m is not None:
+                for st in m.tree.body:
+                    if isinstance(st, ast.Assign) and any(isinstance(t, ast.Name) and t.id == e.id for t in st.targets):
+                        return self.lits(st.value, depth - 1, seen)
+                    if isinstance(st, ast.AnnAssign) and isinstance(st.target, ast.Name) and st.target.id == e.id and st.value is not None:
+                        return self.lits(st.value, depth - 1, seen)
+            return unknown
+        return unknown
+
+    def _param_default(self, fn, name, depth, seen):
+        a = fn.args
+        pos = a.posonlyargs + a.args
+        for p, d in zip(pos[len(pos) - len(a.defaults):], a.defaults):
+            if p.arg == name:
+                return self.lits(d, depth - 1, seen) + [(None,)]
+        for p, d in zip(a.kwonlyargs, a.kw_defaults):
+            if p.arg == name and d is not None:
+                return self.lits(d, depth - 1, seen) + [(None,)]
+        return [(None,)]
+
+    def elements(self, e, depth=3):
+        """expressions a membership / lookup collection is made of"""
+        if isinstance(e, (ast.List, ast.Tuple, ast.Set)):
+            return list(e.elts)
+        if isinstance(e, ast.Dict):
+            return [k for k in e.keys if k is not None]
+        if isinstance(e, ast.Call) and call_name(e) in ("set", "frozenset", "tuple", "list", "dict") and len(e.args) == 1:
+            return self.elements(e.args[0], depth - 1)
+        if isinstance(e, ast.Name) and depth > 0:
+            sc = self.scope(e)
+            if sc is not None and sc.values(e.id):
+                return [x for v in sc.values(e.id) for x in self.elements(v, depth - 1)]
+        return []
+
+    def bad_literals(self, e):
+        return sorted({"".join(x if isinstance(x, str) else "{..}" for x in pat) for pat in self.lits(e) if self.flagged(pat)})
+
+    # ---------------------------------------------------------------- tensor-name typed expressions
+    def is_name(self, e, depth=4, seen=None):
+        seen = set() if seen is None else seen
+        if e is None or depth < 0 or id(e) in seen:
+            return False
+        seen = seen | {id(e)}
+        if isinstance(e, ast.Attribute):
+            return e.attr == "name"
+        if isinstance(e, ast.NamedExpr):
+            return self.is_name(e.value, depth - 1, seen)
+        if isinstance(e, ast.Name):
+            sc = self.scope(e)
+            while sc is not None:
+                b = sc.defs.all_defs(e.id)
+                if b:
+                    for kind, v in b:
+                        if kind == "param" and (sc.fn, e.id) in self.tensor_params:
+                            return True
+                        if kind == "assign" and v is not None and self.is_name(v, depth - 1, seen):
+                            return True
+                    return False
+                sc = self.scope(sc.fn._parent) if getattr(sc.fn, "_parent", None) is not None else None
+        return False
+
+    # ---------------------------------------------------------------- tensor-name parameters (fixpoint)
+    def compute_tensor_params(self):
+        self.tensor_params = set()
+        fns = [fn for _, fn in self.ctx.model.all_functions()]
+        params = {id(fn): [a.arg for a in fn.args.posonlyargs + fn.args.args + fn.args.kwonlyargs] for fn in fns}
+        for fn in fns:
+            for p in params[id(fn)]:
+                if p in NAME_PARAMS or (p == "name" and fn._module.name in NAME_MODULES):
+                    self.tensor_params.add((fn, p))
+        changed = True
+        rounds = 0
+        while changed and rounds < 6:
+            changed = False
+            rounds += 1
+            for fn in fns:
+                ps = [p for p in params[id(fn)] if (fn, p) not in self.tensor_params and p not in ("self", "cls")]
+                if not ps:
+                    continue
+                for n in walk_fn(fn, nested=False):
+                    hit = None
+                    if isinstance(n, ast.Compare) and len(n.ops) == 1 and isinstance(n.ops[0], (ast.Eq, ast.NotEq)):
+                        l, r = n.left, n.comparators[0]
+                        for a, b in ((l, r), (r, l)):
+                            if isinstance(a, ast.Name) and a.id in ps and self.is_name(b):
+                                hit = a.id
+                    elif isinstance(n, ast.Call):
+                        for pname, arg in self._bound_args(n):
+                            if isinstance(arg, ast.Name) and arg.id in ps and pname is True:
+                                hit = arg.id
+                    if hit and (fn, hit) not in self.tensor_params:
+                        self.tensor_params.add((fn, hit))
+                        changed = True
+
+    def _bound_args(self, call):
+        """(True, argument expression) for every argument that is bound to a tensor-name position of the callee"""
+        nm = call_name(call)
+        out = []
+        if nm in TENSOR_CTORS:
+            a = kwarg(call, "name", 0)
+            if a is not None:
+                out.append((True, a))
+            return out
+        cands = self.cg.functions_of_expr(call.func, call) if isinstance(call.func, ast.Name) else list(self.cg.by_short.get(nm, []))
+        for f in cands:
+            if isinstance(f, ast.Lambda):
+                continue
+            ps = [a.arg for a in f.args.posonlyargs + f.args.args]
+            skip = 1 if ps and ps[0] in ("self", "cls") and isinstance(call.func, ast.Attribute) else 0
+            for k, a in enumerate(call.args):
+                if isinstance(a, ast.Starred):
+                    break
+                if k + skip < len(ps) and (f, ps[k + skip]) in self.tensor_params:
+                    out.append((True, a))
+            for kw in call.keywords:
+                if kw.arg is not None and (f, kw.arg) in self.tensor_params:
+                    out.append((True, kw.value))
+        return out
+
+
 def r19c(ctx):
     rule = "R19c"
-    defaults = _defaults(ctx)
-    vals = set(defaults.values())
-    n = 0
+    nf = NameFlow(ctx)
+    nf.tensor_params = set()
+    nf.compute_tensor_params()
+    n_ctor = n_cmp = n_arg = 0
     for mname, m in ctx.model.modules.items():
         ctx.model.used_modules.add(mname)
         if mname == "tensor_names":
             continue
         for node in ast.walk(m.tree):
-            if isinstance(node, ast.Call) and isinstance(node.func, ast.Name) and node.func.id in c18_ctors() and node.args:
-                n += 1
-                a0 = node.args[0]
-                lit = a0.value if isinstance(a0, ast.Constant) and isinstance(a0.value, str) else None
-                if isinstance(a0, ast.JoinedStr) and a0.values and isinstance(a0.values[0], ast.Constant):
-                    lit = a0.values[0].value.rstrip("0123456789") or None
-                ctx.check(rule, node, not (lit in vals), "tensor name not a hard-coded default",
-                          f"`{short(node, 70)}` hard-codes the default name '{lit}' instead of tensor_names.*; with another "
-                          "configuration the tensor is no longer recognised", key=f"ctor literal {lit}")
-            if isinstance(node, ast.Compare) and len(node.ops) == 1 and isinstance(node.ops[0], (ast.Eq, ast.NotEq, ast.In, ast.NotIn)):
-                sides = [node.left] + node.comparators
-                names = [s for s in sides if (isinstance(s, ast.Attribute) and s.attr == "name") or (isinstance(s, ast.Name) and s.id in ("name", "t_name"))]
-                lits = []
-                for s in sides:
-                    if isinstance(s, ast.Constant) and isinstance(s.value, str):
-                        lits.append(s.value)
-                    elif isinstance(s, (ast.List, ast.Tuple, ast.Set)):
-                        lits += [e.value for e in s.elts if isinstance(e, ast.Constant) and isinstance(e.value, str)]
-                if names and lits:
-                    n += 1
-                    bad = [x for x in lits if x in vals and x not in ("a",)]
-                    ctx.check(rule, node, not bad, "name comparison not against a hard-coded default",
-                              f"`{U(node)}` compares a tensor name with the hard-coded default {bad}", key=f"cmp literal {bad}")
-    ctx.floor(rule, "constructor/comparison sites examined", n, 40)
-    # positive fixture
-    fix = ast.parse("x = AntiSymmetricTensor('V', u, l)")
-    c = fix.body[0].value
-    if not (isinstance(c.args[0], ast.Constant) and c.args[0].value in vals):
-        raise AnalysisError("R19c fixture")
+            if isinstance(node, ast.Call):
+                nm = call_name(node)
+                if nm in TENSOR_CTORS:
+                    a0 = kwarg(node, "name", 0)
+                    if a0 is not None:
+                        n_ctor += 1
+                        bad = nf.bad_literals(a0)
+                        ctx.check(rule, node, not bad, "tensor name not a hard-coded default",
+                                  f"`{short(node, 70)}` is built with the hard-coded default name {bad} instead of tensor_names.*; with "
+                                  "another configuration the tensor is no longer recognised", key=f"ctor literal {bad}")
+                elif isinstance(node.func, ast.Attribute) and nm in ("startswith", "endswith", "removeprefix", "removesuffix") \
+                        and node.args and nf.is_name(node.func.value):
+                    n_cmp += 1
+                    bad = [b for a in (nf.elements(node.args[0]) or [node.args[0]]) for b in nf.bad_literals(a)]
+                    ctx.check(rule, node, not bad, "prefix test of a tensor name not against a hard-coded default",
+                              f"`{short(node, 70)}` tests a tensor name against the hard-coded default {bad}", key=f"prefix literal {bad}")
+                else:
+                    for _, a in nf._bound_args(node):
+                        n_arg += 1
+                        bad = nf.bad_literals(a)
+                        ctx.check(rule, node, not bad, "tensor-name argument not a hard-coded default",
+                                  f"`{short(node, 70)}` passes the hard-coded default name {bad} where a tensor name is expected",
+                                  key=f"arg literal {bad}")
+            elif isinstance(node, ast.Compare):
+                sides = [node.left] + list(node.comparators)
+                for op, l, r in zip(node.ops, sides, sides[1:]):
+                    if isinstance(op, (ast.Eq, ast.NotEq)):
+                        pairs = [(l, [r]), (r, [l])]
+                    elif isinstance(op, (ast.In, ast.NotIn)):
+                        pairs = [(l, nf.elements(r))]
+                    else:
+                        continue
+                    for nm_side, others in pairs:
+                        if not others or not nf.is_name(nm_side):
+                            continue
+                        n_cmp += 1
+                        bad = [b for o in others for b in nf.bad_literals(o)]
+                        ctx.check(rule, node, not bad, "name comparison not against a hard-coded default",
+                                  f"`{short(node, 80)}` compares a tensor name with the hard-coded default {bad}", key=f"cmp literal {bad}")
+            elif isinstance(node, ast.Subscript) and isinstance(node.ctx, ast.Load) and nf.is_name(node.slice):
+                keys = nf.elements(node.value)
+                if keys:
+                    n_cmp += 1
+                    bad = [b for o in keys for b in nf.bad_literals(o)]
+                    ctx.check(rule, node, not bad, "table keyed by tensor names has no hard-coded default key",
+                              f"`{short(node, 80)}` looks a tensor name up in a table with the hard-coded default key(s) {bad}",
+                              key=f"table literal {bad}")
+            elif isinstance(node, ast.match_case) if hasattr(ast, "match_case") else False:
+                pass
+    ctx.floor(rule, "tensor constructor sites examined", n_ctor, 40)
+    ctx.floor(rule, "comparisons / look-ups of tensor names examined", n_cmp, 10)
+    ctx.floor(rule, "arguments bound to tensor-name parameters examined", n_arg, 5)
+    # the decision procedure itself: positive fixtures
+    for s, want in (("V", True), ("t", True), ("t2", True), ("t1cc", True), ("p0", True), ("t2eri", False), ("t2sq", False),
+                    ("u", False), ("Zero", False)):
+        if nf.default_like(s) is not want:
+            raise AnalysisError(f"R19c fixture: default_like({s!r}) != {want}")
 
 
-def c18_ctors():
-    return ("AntiSymmetricTensor", "SymmetricTensor", "Amplitude", "NonSymmetricTensor")
+# ====================================================================== R19c (registry look-ups) / R19d
+
+
+def _self_args(fn, mod):
+    cls = getattr(fn, "_cls", None)
+
+    def make():
+        d = {}
+        a = fn.args
+        for p in a.posonlyargs + a.args + a.kwonlyargs:
+            if p.arg in ("self", "cls") and cls:
+                d[p.arg] = Obj(f"{mod}:{cls}", "self")
+            else:
+                d[p.arg] = sym(p.arg)
+        return d
+    return make
 
 
 def r19h(ctx):
@@ -348,131 +1730,575 @@ def r19h(ctx):
     rule = "R19c"
     n = 0
     for ref, fn in ctx.model.all_functions():
-        for c in calls_in(fn, nested=False):
-            if call_name(c) == "get" and U(c.func.value).endswith(".available") and c.args:
-                n += 1
-                a0 = c.args[0]
-                ok = isinstance(a0, ast.Call) and call_name(a0) == "longname" and (
-                    (a0.args and U(a0.args[0]) == "True") or U(kwarg(a0, "use_default_names") or ast.Constant(None)) == "True")
-                ctx.check(rule, c, ok, f"{ref.split(':')[1]}: intermediates looked up by their default long name",
-                          f"`{short(c, 70)}`: the registry of intermediates is keyed by default names; looking up the configured "
-                          "long name misses every intermediate as soon as tensor_names.json renames amplitudes/densities",
-                          fn=ref, key=f"lookup {ref}")
-    ctx.floor(rule, "registry look-ups", n, 3)
+        if getattr(fn, "_fn", None) is not None:
+            continue
+        if not any(isinstance(x, ast.Attribute) and x.attr == "available" for x in walk_fn(fn)):
+            continue
+        mod = ref.split(":")[0]
+        sx = Symex(ctx.model, inline=lambda q: False, what=ref, max_paths=4096)
+        outs = sx.run(fn, _self_args(fn, mod))
+        keys = set()
+        for o in outs:
+            for t in subterms(list(o.effects) + [o.value] + [a for a, _ in o.path]):
+                k = None
+                if t.op == "mcall" and t.args[1] in ("get", "pop", "__getitem__", "__contains__") and t.args[2]:
+                    recv, k = t.args[0], t.args[2][0]
+                elif t.op == "item":
+                    recv, k = t.args[0], t.args[1]
+                elif t.op == "cmp" and t.args[0] in ("in", "not in"):
+                    recv, k = t.args[2], t.args[1]
+                if k is None or not isinstance(recv, T):
+                    continue
+                if not any(s.op == "attr" and s.args[1] == "available" for s in subterms(recv)):
+                    continue
+                for c in subterms(k):
+                    if c.op == "mcall" and c.args[1] == "longname":
+                        keys.add(c)
+        for c in sorted(keys, key=show):
+            n += 1
+            flag = args_of(c).get("use_default_names", args_of(c).get(0))
+            ctx.check(rule, fn, flag is True, f"{ref.split(':')[1]}: intermediates looked up by their default long name",
+                      f"`{show(c)}` is used as key of the registry of intermediates, which is keyed by default names; looking up the "
+                      "configured long name misses every intermediate as soon as tensor_names.json renames amplitudes/densities",
+                      fn=ref, key=f"lookup {ref}")
+    ctx.floor(rule, "registry look-ups by long name", n, 3)
+
+
+def _deco_call(cls, name):
+    for d in cls.decorator_list:
+        f = d.func if isinstance(d, ast.Call) else d
+        if (isinstance(f, ast.Name) and f.id == name) or (isinstance(f, ast.Attribute) and f.attr == name):
+            return d
+    return None
 
 
 def r19d(ctx):
     rule = "R19d"
     cls = ctx.model.cls("tensor_names:TensorNames")
-    deco = " ".join(U(d) for d in cls.decorator_list)
-    ctx.check(rule, cls, "dataclass" in deco and "frozen=True" in deco and "slots=True" in deco, "TensorNames is a frozen slotted dataclass",
-              f"TensorNames decorator is `{deco}`", key="frozen")
-    ctx.check(rule, cls, any(U(k.value) == "Singleton" for k in cls.keywords if k.arg == "metaclass"), "TensorNames is a singleton",
-              "TensorNames lost the Singleton metaclass", key="singleton")
-    m = ctx.model.module("tensor_names")
-    inst = [n for n in m.tree.body if isinstance(n, ast.Assign) and U(n.targets[0]) == "tensor_names"]
-    ctx.check(rule, m.tree, len(inst) == 1 and U(inst[0].value) == "TensorNames._from_config()", "one instance built from the config file",
-              "module level instance changed", key="instance")
-    fc = ctx.model.fn("tensor_names:TensorNames._from_config")
-    r = common.returns_of(fc)
-    ctx.check(rule, fc, U(r[0].value) == "TensorNames(**tensor_names)", "all fields taken from the JSON file", "config loading changed",
-              key="from config")
+    mod = ctx.model.module("tensor_names")
+    sx = Symex(ctx.model, inline=lambda q: False, what="TensorNames")
+    sx.frames, sx.module, sx.prefix, sx.decisions, sx.facts, sx.path, sx.effects, sx.steps, sx.depth = [{}], mod, [], [], {}, [], [], 0, 0
+    d = _deco_call(cls, "dataclass")
+    opts = {}
+    if isinstance(d, ast.Call):
+        for k in d.keywords:
+            if k.arg is not None:
+                opts[k.arg] = sx.ev(k.value)
+    ctx.check(rule, cls, d is not None and opts.get("frozen") is True and opts.get("slots") is True,
+              "TensorNames is a frozen slotted dataclass", f"TensorNames is declared with dataclass options {opts}: its fields can be "
+              "rebound at run time", key="frozen")
+    meta = [sx.ev(k.value) for k in cls.keywords if k.arg == "metaclass"]
+    mname = [m_.short if isinstance(m_, ClassRef) else m_.name.split(".")[-1] if isinstance(m_, Ext) else None for m_ in meta]
+    ctx.check(rule, cls, mname == ["Singleton"],
+              "TensorNames is a singleton", "TensorNames lost the Singleton metaclass", key="singleton")
+    # the module-level instance, evaluated with every function of the module looked into: TensorNames(**<loaded json>)
+    n_bind = sum(1 for st in mod.tree.body for t in (st.targets if isinstance(st, ast.Assign) else [st.target] if isinstance(st, (ast.AnnAssign, ast.AugAssign)) else [])
+                 for x in ast.walk(t) if isinstance(x, ast.Name) and x.id == "tensor_names")
+    sxi = Symex(ctx.model, inline=lambda q: q.startswith("tensor_names:"), what="tensor_names instance")
+    sxi.frames, sxi.module, sxi.prefix, sxi.decisions, sxi.facts, sxi.path, sxi.effects, sxi.steps, sxi.depth = [{}], mod, [], [], {}, [], [], 0, 0
+    inst = sxi.global_name(mod, "tensor_names")
+    a = args_of(inst) if isinstance(inst, T) and inst.op == "call" and inst.args[0] == "TensorNames" else None
+    src = a.get("**") if a else None
+    loads = [x for x in calls(src)] if src is not None else []
+    from_json = a is not None and set(a) == {"**"} and any((x.args[0] if x.op == "call" else x.args[1]).split(".")[-1] in ("load", "loads") for x in loads)
+    ctx.check(rule, mod.tree, n_bind == 1 and a is not None, "one module-level TensorNames instance",
+              f"the module level instance evaluates to {show(inst)[:200]} (bound {n_bind} times)", key="instance")
+    ctx.check(rule, mod.tree, from_json, "all fields of the instance are taken from the JSON file",
+              f"the instance evaluates to {show(inst)[:200]}: not TensorNames(**<loaded json>)", key="from config")
+    df = ctx.model.fn("tensor_names:TensorNames.defaults")
+
+    def fields_hook(s, a_, kw_):
+        out = []
+        for nm in ("eri", "gs_amplitude", "orb_energy"):
+            f = Obj(None, "field_" + nm)
+            f.attrs.update(name=nm, default=sym("default_" + nm))
+            out.append(f)
+        return out
+    outs = Symex(ctx.model, inline=lambda q: False, what="defaults", hooks={"fields": fields_hook}).run(df, lambda: {})
+    want = {nm: sym("default_" + nm) for nm in ("eri", "gs_amplitude", "orb_energy")}
+    ok = len(outs) == 1 and outs[0].kind == "return" and outs[0].value == want
+    ctx.check(rule, df, ok, "defaults read from the field table", f"defaults() returns {show(outs[0].value) if outs else '?'} for the fields "
+              "eri, gs_amplitude, orb_energy; expected their default values by name", key="defaults")
+    # no store on the instance anywhere in the package
     n = 0
-    for mname, mod in ctx.model.modules.items():
-        for node in ast.walk(mod.tree):
+    for mname, m in ctx.model.modules.items():
+        ctx.model.used_modules.add(mname)
+        aliases = {loc for loc, origin in m.imports.items() if origin.endswith(":tensor_names") and "tensor_names" in origin.split(":")[0]}
+        if mname == "tensor_names":
+            aliases.add("tensor_names")
+
+        def is_inst(e):
+            return (isinstance(e, ast.Name) and e.id in aliases) or \
+                (isinstance(e, ast.Attribute) and e.attr == "tensor_names" and isinstance(e.value, (ast.Name, ast.Attribute)) and
+                 (e.value.id if isinstance(e.value, ast.Name) else e.value.attr) == "tensor_names")
+        for node in ast.walk(m.tree):
             tgt = []
             if isinstance(node, ast.Assign):
                 tgt = node.targets
             elif isinstance(node, (ast.AugAssign, ast.AnnAssign)):
                 tgt = [node.target]
+            elif isinstance(node, ast.Delete):
+                tgt = node.targets
             for t in tgt:
-                if isinstance(t, ast.Attribute) and U(t.value) in ("tensor_names", "self") and mname == "tensor_names" and U(t.value) == "tensor_names":
-                    ctx.bad(rule, node, "attribute store on the TensorNames instance", key=f"store {U(t)}")
-                if isinstance(t, ast.Attribute) and U(t.value) == "tensor_names":
-                    n += 1
-                    ctx.bad(rule, node, f"`{short(node, 60)}` changes a configured tensor name at run time", key=f"store {U(t)}")
-            if isinstance(node, ast.Call) and U(node.func) in ("object.__setattr__", "setattr") and node.args and "tensor_names" in U(node.args[0]):
-                ctx.bad(rule, node, "setattr on the TensorNames instance", key="setattr")
-    ctx.ok(rule, None, "no attribute store on tensor_names in the package", fn="package", key="no store")
-    df = ctx.model.fn("tensor_names:TensorNames.defaults")
-    r = common.returns_of(df)
-    ctx.check(rule, df, U(r[0].value) == "{field.name: field.default for field in fields(TensorNames)}", "defaults read from the field table",
-              "defaults() changed", key="defaults")
+                for x in ast.walk(t):
+                    if isinstance(x, ast.Attribute) and isinstance(x.ctx, (ast.Store, ast.Del)) and is_inst(x.value):
+                        n += 1
+                        ctx.bad(rule, node, f"`{short(node, 60)}` changes a configured tensor name at run time", key=f"store .{x.attr}")
+            if isinstance(node, ast.Call) and call_name(node) in ("__setattr__", "setattr", "__delattr__", "delattr") and \
+                    any(is_inst(a) for a in node.args[:2]):
+                n += 1
+                ctx.bad(rule, node, f"`{short(node, 60)}` rebinds a field of the TensorNames instance", key="setattr")
+    if not n:
+        ctx.ok(rule, None, "no attribute store on tensor_names in the package", fn="package", key="no store")
 
 
-# ---------------------------------------------------------------------- R19f
+# ====================================================================== R19i
+# The caches themselves: cached_member / cached_property are evaluated on a model of a method that counts its evaluations;
+# the sequence of calls is compared with a reference memo keyed by (instance, method, fully bound arguments).
+
+class _Callee(Obj):
+    """the decorated function: logs every evaluation and returns a distinguishable result"""
+
+    def __init__(self, name, params=(), defaults=None):
+        super().__init__(None, name)
+        self.attrs.update(__name__=name, __doc__=None, __qualname__=name, __module__="m", __dict__={}, __wrapped__=None)
+        self.__dict__["params"], self.__dict__["defaults"], self.__dict__["log"] = list(params), dict(defaults or {}), []
+
+    def __call__(self, sx, args, kw):
+        inst = args[0]
+        self.log.append((inst.name if isinstance(inst, Obj) else inst, tuple(args[1:]), tuple(sorted(kw.items()))))
+        return ("result", self.name, len(self.log))
 
 
-def _mutable_return(fn):
-    for r in common.returns_of(fn):
-        v = r.value
-        if isinstance(v, (ast.Dict, ast.List, ast.Set, ast.DictComp, ast.ListComp, ast.SetComp)):
+def _signature_hook(sx, a, kw):
+    """inspect.signature of a _Callee: bind / apply_defaults as Python does"""
+    f = a[0]
+    names = ["self"] + list(f.params)
+    sig = Obj(None, f"signature:{f.name}")
+    sig.attrs["parameters"] = {}        # the kinds of the parameters (keyword-only refused) are not the subject here
+
+    def bind(sx2, a2, kw2):
+        if len(a2) > len(names):
+            raise Raised("TypeError")
+        vals = dict(zip(names, a2))
+        for k, v in kw2.items():
+            if k in vals or k not in names:
+                raise Raised("TypeError")
+            vals[k] = v
+        if any(n not in vals and n not in f.defaults for n in names):
+            raise Raised("TypeError")
+        ba = Obj(None, "bound_arguments")
+
+        def refresh():
+            given = [n for n in names if n in vals]
+            # positional-or-keyword parameters are reported positionally up to the first missing one
+            pos = []
+            for n in names:
+                if n not in vals:
+                    break
+                pos.append(vals[n])
+            ba.attrs["args"] = tuple(pos)
+            ba.attrs["kwargs"] = {n: vals[n] for n in given[len(pos):]}
+            ba.attrs["arguments"] = dict(vals)
+
+        def apply_defaults(sx3, a3, kw3):
+            for k, v in f.defaults.items():
+                vals.setdefault(k, v)
+            refresh()
+        refresh()
+        ba.attrs["apply_defaults"] = apply_defaults
+        return ba
+    sig.attrs["bind"] = bind
+    return sig
+
+
+def _cache_attr_hook(sx, obj, attr, node):
+    if isinstance(obj, Obj) and not isinstance(obj, _Callee) and attr.startswith("_") and not attr.startswith("__"):
+        raise Raised("AttributeError")      # instances start without any private cache attribute
+    return NotImplemented
+
+
+def r19i(ctx):
+    rule = "R19i"
+    hooks = {"signature": _signature_hook, "inspect.signature": _signature_hook,
+             "wraps": lambda s, a, k: (lambda s2, a2, k2: a2[0]), "property": lambda s, a, k: a[0] if a else k.get("fget")}
+    sx = Symex(ctx.model, inline=lambda q: q.startswith("misc:"), hooks=hooks, attr_hook=_cache_attr_hook, what="caches", max_paths=64)
+
+    def decorate(ref, callee):
+        outs = sx.run(ref, lambda: dict(function=callee))
+        if len(outs) != 1 or outs[0].kind != "return" or not isinstance(outs[0].value, Func):
+            raise AnalysisError(f"R19i: {ref} does not evaluate to one wrapper function: {outs}")
+        return outs[0].value
+
+    def call(w, inst, *a, **k):
+        sx.frames, sx.module, sx.prefix, sx.decisions, sx.facts, sx.path, sx.effects, sx.steps, sx.depth = [], None, [], [], {}, [], [], 0, 0
+        try:
+            return sx.call_value(w, [inst] + list(a), dict(k), None)
+        except Raised as e:
+            return ("raised", e.name)
+
+    # ---- cached_member
+    fn = ctx.model.fn("misc:cached_member")
+    f = _Callee("energy", ["order", "space"], {"space": "ph"})
+    g = _Callee("overlap", ["order", "space"], {"space": "ph"})
+    wf, wg = decorate("misc:cached_member", f), decorate("misc:cached_member", g)
+    i1, i2 = Obj(None, "instance1"), Obj(None, "instance2")
+    seq = [(wf, f, i1, (1,), {}), (wf, f, i1, (), {"order": 1}), (wf, f, i1, (1, "ph"), {}), (wf, f, i1, (1,), {"space": "ph"}),
+           (wf, f, i1, (1, "pphh"), {}), (wf, f, i2, (1,), {}), (wg, g, i1, (1,), {}), (wf, f, i1, (2,), {}), (wf, f, i1, (1,), {}),
+           (wg, g, i2, (), {"space": "ph", "order": 1}), (wf, f, i2, (1, "ph"), {}), (wg, g, i1, (1, "ph"), {})]
+    memo, wrong_hit, missed, wrong_args = {}, [], [], []
+    for w, c, inst, a, k in seq:
+        full = dict(zip(c.params, a))
+        full.update(k)
+        for p, d in c.defaults.items():
+            full.setdefault(p, d)
+        key = (inst.name, c.name, tuple(full[p] for p in c.params))
+        n0 = len(c.log)
+        r = call(w, inst, *a, **k)
+        evaluated = len(c.log) > n0
+        desc = f"{c.name}({', '.join(map(repr, a))}{', ' if a and k else ''}{', '.join(f'{x}={y!r}' for x, y in k.items())}) on {inst.name}"
+        if key in memo:
+            if evaluated:
+                missed.append(desc)
+            elif r != memo[key]:
+                wrong_hit.append((desc, r, memo[key]))
+        else:
+            if not evaluated:
+                wrong_hit.append((desc, r, "a new evaluation"))
+            else:
+                got = c.log[-1]
+                if got[0] != inst.name or tuple(got[1]) + tuple(v for _, v in got[2]) != key[2] and \
+                        dict(zip(c.params, got[1]), **dict(got[2])) != full:
+                    wrong_args.append((desc, got))
+            memo[key] = r
+    ctx.check(rule, fn, not wrong_hit, "cached_member: a result is only reused for the same instance, method and fully bound arguments",
+              f"cached_member returns {wrong_hit[0][1] if wrong_hit else ''} for the request {wrong_hit[0][0] if wrong_hit else ''}; expected "
+              f"{wrong_hit[0][2] if wrong_hit else ''}: the result depends on which requests preceded it", key="member sound")
+    ctx.check(rule, fn, not missed, "cached_member: positional/keyword spelling and omitted defaults address the same entry",
+              f"cached_member evaluates the method again for {missed[:2]}: equal requests yield distinct objects", key="member complete")
+    ctx.check(rule, fn, not wrong_args, "cached_member: the method is evaluated with the requested arguments",
+              f"cached_member evaluates {wrong_args[0] if wrong_args else ''}", key="member arguments")
+    # ---- cached_property
+    fn = ctx.model.fn("misc:cached_property")
+    p, q = _Callee("prefactor"), _Callee("idx")
+    gp, gq = decorate("misc:cached_property", p), decorate("misc:cached_property", q)
+    j1, j2 = Obj(None, "instance1"), Obj(None, "instance2")
+    memo, wrong_hit, missed = {}, [], []
+    for w, c, inst in [(gp, p, j1), (gp, p, j1), (gq, q, j1), (gp, p, j2), (gq, q, j1), (gq, q, j2), (gp, p, j2), (gp, p, j1)]:
+        key = (inst.name, c.name)
+        n0 = len(c.log)
+        r = call(w, inst)
+        evaluated = len(c.log) > n0
+        if key in memo and evaluated:
+            missed.append(f"{c.name} of {inst.name}")
+        elif key in memo and r != memo[key] or key not in memo and not evaluated:
+            wrong_hit.append((f"{c.name} of {inst.name}", r, memo.get(key, "a new evaluation")))
+        memo.setdefault(key, r)
+    ctx.check(rule, fn, not wrong_hit, "cached_property: a value is only reused for the same instance and property",
+              f"cached_property returns {wrong_hit[0][1] if wrong_hit else ''} for {wrong_hit[0][0] if wrong_hit else ''}; expected "
+              f"{wrong_hit[0][2] if wrong_hit else ''}", key="property sound")
+    ctx.check(rule, fn, not missed, "cached_property: evaluated once per instance", f"cached_property evaluates {missed[:2]} again",
+              key="property complete")
+
+
+# ====================================================================== R19j
+# rename_tensors evaluated on a model expression: the tensors of an expression written with default names end up with the
+# names map_default_name assigns to them - all at once, for configurations that rename, swap and chain default names.
+
+def _rename_model(names):
+    """expression model: a list of tensor names; rename_tensor(old, new) renames every tensor called old; atoms() lists
+    the names present at the time of the call (as a set: both iteration orders are evaluated by the caller)"""
+    state = {"names": list(names)}
+
+    def make(order):
+        expr = Obj("expr_container:Expr", "expr")
+        expr.attrs["_classes"] = {"Expr", "Container"}
+
+        def rename_tensor(sx, a, kw):
+            a = [x for x in a if not isinstance(x, Obj)]
+            old, new = (a + [kw.get("current"), kw.get("new")])[:2] if len(a) < 2 else a[:2]
+            if not isinstance(old, str) or not isinstance(new, str):
+                raise AnalysisError(f"R19j: rename_tensor called with {old!r}, {new!r}")
+            state["names"] = [new if n == old else n for n in state["names"]]
+            return expr
+
+        def atoms(sx, a, kw):
+            out = []
+            for n in sorted(set(state["names"]), reverse=(order == 1)):
+                s = Obj(None, f"Symbol({n})")
+                s.attrs["name"] = n
+                out.append(s)
+            return out
+        sympy = Obj(None, "expr.sympy")
+        sympy.attrs["atoms"] = atoms
+        expr.attrs.update(sympy=sympy, rename_tensor=rename_tensor)
+        return expr
+    return state, make
+
+
+def r19j(ctx):
+    rule = "R19j"
+    fn = ctx.model.fn("tensor_names:TensorNames.rename_tensors")
+    defaults = _defaults(ctx)
+    t, p = defaults["gs_amplitude"], defaults["gs_density"]
+    present = sorted(set(defaults.values())) + [t + "1", t + "2cc", t + "cc", p + "2", "Zero", "t2eri_1"]
+    configs = {
+        "defaults": {},
+        "one name changed": {"eri": "W"},
+        "two defaults swapped": {"eri": defaults["fock"], "fock": defaults["eri"]},
+        "chain of renames": {"eri": defaults["fock"], "fock": "g"},
+        "amplitudes renamed": {"gs_amplitude": "T"},
+        "amplitudes and densities swapped": {"gs_amplitude": p, "gs_density": t},
+        "name taken from a later field": {"coulomb": defaults["sym_orb_denom"], "sym_orb_denom": "Q"},
+    }
+
+    def fields_hook(sx, a, kw):
+        out = []
+        for nm, d in defaults.items():
+            f = Obj(None, f"field:{nm}")
+            f.attrs.update(name=nm, default=d)
+            out.append(f)
+        return out
+    for what, conf in configs.items():
+        cfg = dict(defaults)
+        cfg.update(conf)
+
+        def expected(n):
+            for base, field in ((t, "gs_amplitude"), (p, "gs_density")):
+                ext = n[len(base):]
+                core = ext.replace("c", "") if field == "gs_amplitude" else ext
+                if n.startswith(base) and (core == "" or core.isdigit()) and (field == "gs_amplitude" or ext == "" or ext.isdigit()):
+                    if n == base or ext:
+                        return cfg[field] + ext
+            for field, d in defaults.items():
+                if d == n:
+                    return cfg[field]
+            return n
+        want = [expected(n) for n in present]
+        for order in (0, 1):
+            state, make = _rename_model(present)
+            sx = Symex(ctx.model, inline=lambda q: q.startswith("tensor_names:"), hooks={"fields": fields_hook, "defaults": lambda s_, a_, k_: dict(defaults), "TensorNames.defaults": lambda s_, a_, k_: dict(defaults)}, what="rename_tensors",
+                       max_paths=64)
+
+            def args():
+                me = Obj("tensor_names:TensorNames", "self")
+                me.attrs.update(cfg)
+                return dict(self=me, expr=make(order))
+            outs = sx.run(fn, args)
+            if len(outs) != 1 or outs[0].kind != "return":
+                ctx.bad(rule, fn, f"rename_tensors ({what}) does not return on one path: {outs}", key=f"shape {what}")
+                break
+            got = state["names"]
+            wrong = [(a, b, c) for a, b, c in zip(present, got, want) if b != c]
+            ctx.check(rule, fn, not wrong, f"{what}: every default name is mapped to its configured name at once",
+                      f"configuration `{conf}`: the tensor {wrong[0][0] if wrong else ''} ends up as {wrong[0][1] if wrong else ''}, expected "
+                      f"{wrong[0][2] if wrong else ''} ({len(wrong)} of {len(present)} names wrong): renames are chained instead of applied "
+                      "simultaneously, the result differs from the default-name result by more than the renaming",
+                      key=f"simultaneous {what} {order}")
+
+
+# ====================================================================== R19f
+# Objects handed out by a cache are shared by all later callers: alias flow from every use of a cached method/property
+# with a mutable result to in-place mutations (mutator methods, item/attribute stores, augmented assignment, passing to
+# a repository function that mutates the corresponding parameter).
+
+MUTABLE_CTORS = {"Expr", "LazyTermMap", "dict", "list", "set", "defaultdict", "OrderedDict", "Counter", "deque", "bytearray"}
+
+
+class Aliases:
+    def __init__(self, ctx):
+        self.ctx = ctx
+        self.cg = call_graph(ctx)
+        self._scopes = {}
+        self._mut = {}
+        self._param_mut = {}
+
+    def scope(self, fn):
+        if id(fn) not in self._scopes:
+            self._scopes[id(fn)] = _Scope(fn, self.cg.defs(fn))
+        return self._scopes[id(fn)]
+
+    def mutable_expr(self, e, sc, depth=4, seen=None):
+        """the expression may evaluate to a mutable container built by this function"""
+        seen = set() if seen is None else seen
+        if e is None or depth < 0 or id(e) in seen:
+            return False
+        seen.add(id(e))
+        if isinstance(e, (ast.Dict, ast.List, ast.Set, ast.DictComp, ast.ListComp, ast.SetComp)):
             return True
-        if isinstance(v, ast.Call) and call_name(v) in ("Expr", "LazyTermMap", "dict", "list", "set", "defaultdict"):
-            return True
-        if isinstance(v, ast.Name):
-            for a in common.assigns_to(fn, v.id):
-                val = getattr(a, "value", None)
-                if isinstance(val, (ast.Dict, ast.List, ast.Set, ast.DictComp, ast.ListComp, ast.SetComp)):
-                    return True
-                if isinstance(val, ast.Call) and call_name(val) in ("Expr", "LazyTermMap", "dict", "list", "set", "defaultdict"):
-                    return True
-    return False
+        if isinstance(e, ast.Call):
+            if call_name(e) in MUTABLE_CTORS:
+                return True
+            if isinstance(e.func, ast.Attribute) and e.func.attr == "copy":
+                return self.mutable_expr(e.func.value, sc, depth - 1, seen)
+            return False
+        if isinstance(e, ast.IfExp):
+            return self.mutable_expr(e.body, sc, depth - 1, seen) or self.mutable_expr(e.orelse, sc, depth - 1, seen)
+        if isinstance(e, ast.NamedExpr):
+            return self.mutable_expr(e.value, sc, depth - 1, seen)
+        if isinstance(e, ast.Name):
+            return any(self.mutable_expr(v, sc, depth - 1, seen) for v in sc.values(e.id))
+        return False
+
+    def mutable_result(self, fn):
+        if id(fn) not in self._mut:
+            sc = self.scope(fn)
+            self._mut[id(fn)] = any(self.mutable_expr(r.value, sc) for r in walk_fn(fn, nested=False)
+                                    if isinstance(r, ast.Return) and r.value is not None)
+        return self._mut[id(fn)]
+
+    # -------------------------------------------------------------- mutation sites
+    @staticmethod
+    def _root(e):
+        while isinstance(e, (ast.Subscript,)):
+            e = e.value
+        return e
+
+    def mutations(self, fn):
+        """(expression that is mutated in place, node, description) for every in-place mutation in ``fn``"""
+        out = []
+        for n in walk_fn(fn, nested=True):
+            if isinstance(n, ast.Call) and isinstance(n.func, ast.Attribute) and n.func.attr in MUTATORS:
+                out.append((n.func.value, n, f".{n.func.attr}()"))
+            elif isinstance(n, (ast.Assign, ast.AugAssign, ast.AnnAssign, ast.Delete)):
+                tg = n.targets if isinstance(n, (ast.Assign, ast.Delete)) else [n.target]
+                for t in tg:
+                    for x in ast.walk(t):
+                        if isinstance(x, ast.Subscript) and isinstance(x.ctx, (ast.Store, ast.Del)):
+                            out.append((x.value, n, "item store"))
+                        elif isinstance(x, ast.Attribute) and isinstance(x.ctx, (ast.Store, ast.Del)) and \
+                                not (isinstance(x.value, ast.Name) and x.value.id in ("self", "cls")):
+                            out.append((x.value, n, f"store of .{x.attr}"))
+                if isinstance(n, ast.AugAssign) and isinstance(n.target, ast.Name):
+                    out.append((n.target, n, "augmented assignment"))
+            elif isinstance(n, ast.Call):
+                for f, pname, arg in self._bound(n):
+                    if self.param_mutated(f, pname):
+                        out.append((arg, n, f"passed to {f.name}(), which mutates `{pname}`"))
+        return out
+
+    def _bound(self, call):
+        nm = call_name(call)
+        cands = self.cg.functions_of_expr(call.func, call) if isinstance(call.func, ast.Name) else list(self.cg.by_short.get(nm, []))
+        for f in cands:
+            if isinstance(f, ast.Lambda):
+                continue
+            ps = [a.arg for a in f.args.posonlyargs + f.args.args]
+            skip = 1 if ps and ps[0] in ("self", "cls") and isinstance(call.func, ast.Attribute) else 0
+            for k, a in enumerate(call.args):
+                if isinstance(a, ast.Starred):
+                    break
+                if k + skip < len(ps):
+                    yield f, ps[k + skip], a
+            for kw in call.keywords:
+                if kw.arg is not None and kw.arg in ps + [a.arg for a in f.args.kwonlyargs]:
+                    yield f, kw.arg, kw.value
+
+    def param_mutated(self, fn, pname, depth=2):
+        key = (id(fn), pname)
+        if key in self._param_mut:
+            return self._param_mut[key]
+        self._param_mut[key] = False
+        if depth <= 0:
+            return False
+        sc = self.scope(fn)
+        res = False
+        for target, node, how in self._direct_mutations(fn):
+            r = self._root(target)
+            if isinstance(r, ast.Name) and r.id == pname and not sc.values(pname) and how != "augmented assignment":
+                res = True
+                break
+        self._param_mut[key] = res
+        return res
+
+    def _direct_mutations(self, fn):
+        out = []
+        for n in walk_fn(fn, nested=False):
+            if isinstance(n, ast.Call) and isinstance(n.func, ast.Attribute) and n.func.attr in MUTATORS:
+                out.append((n.func.value, n, f".{n.func.attr}()"))
+            elif isinstance(n, (ast.Assign, ast.AugAssign, ast.Delete)):
+                tg = n.targets if isinstance(n, (ast.Assign, ast.Delete)) else [n.target]
+                for t in tg:
+                    for x in ast.walk(t):
+                        if isinstance(x, ast.Subscript) and isinstance(x.ctx, (ast.Store, ast.Del)):
+                            out.append((x.value, n, "item store"))
+        return out
+
+    # -------------------------------------------------------------- aliases
+    def is_alias(self, e, sc, cached_call, cached_prop, at_stmt, depth=4):
+        """``e`` evaluated at ``at_stmt`` may be the very object handed out by a cache: name of the cached callable or None"""
+        if depth < 0 or e is None:
+            return None
+        if isinstance(e, ast.Call) and isinstance(e.func, ast.Attribute) and e.func.attr in cached_call:
+            return e.func.attr
+        if isinstance(e, ast.Attribute) and e.attr in cached_prop and isinstance(e.ctx, ast.Load):
+            return e.attr
+        if isinstance(e, ast.NamedExpr):
+            return self.is_alias(e.value, sc, cached_call, cached_prop, at_stmt, depth - 1)
+        if isinstance(e, ast.IfExp):
+            return self.is_alias(e.body, sc, cached_call, cached_prop, at_stmt, depth - 1) or \
+                self.is_alias(e.orelse, sc, cached_call, cached_prop, at_stmt, depth - 1)
+        if isinstance(e, ast.Name):
+            if e.id in sc.params and not sc.values(e.id):
+                return None
+            live = reaching_assignments(sc.fn, e.id, at_stmt) if at_stmt is not None else []
+            vals = []
+            for a in live:
+                for t in a.targets:
+                    if isinstance(t, ast.Name) and t.id == e.id:
+                        vals.append((a.value, a))
+            # walrus / annotated bindings are not seen by reaching_assignments: fall back to all bindings
+            if not live:
+                vals = [(v, enclosing_stmt(v)) for v in sc.values(e.id)]
+            for v, st in vals:
+                r = self.is_alias(v, sc, cached_call, cached_prop, st, depth - 1)
+                if r:
+                    return r
+        return None
 
 
 def r19f(ctx):
     rule = "R19f"
-    cached = {}
+    al = Aliases(ctx)
+    cached_call, cached_prop = {}, {}
     for ref, fn in ctx.model.all_functions():
         decos = common.decorators(fn)
-        if any(d in CACHE_DECOS for d in decos) and _mutable_return(fn):
-            cached.setdefault(fn.name, []).append((ref, "cached_property" in decos))
-    ctx.floor(rule, "cached methods with mutable results", len(cached), 6)
+        if any(d in CACHE_DECOS for d in decos) and al.mutable_result(fn):
+            (cached_prop if "cached_property" in decos else cached_call).setdefault(fn.name, []).append(ref)
+    ctx.floor(rule, "cached methods with mutable results", len(cached_call) + len(cached_prop), 6)
     n_sites = 0
     for ref, fn in ctx.model.all_functions():
         if getattr(fn, "_fn", None) is not None:
             continue
-        for a in walk_fn(fn):
-            if not (isinstance(a, ast.Assign) and len(a.targets) == 1 and isinstance(a.targets[0], ast.Name)):
-                continue
-            v = a.value
+        sc = al.scope(fn)
+        uses = {}
+        for n in walk_fn(fn, nested=True):
             src = None
-            if isinstance(v, ast.Call) and isinstance(v.func, ast.Attribute) and v.func.attr in cached \
-                    and not any(p for _, p in cached[v.func.attr]):
-                src = v.func.attr
-            elif isinstance(v, ast.Attribute) and v.attr in cached and any(p for _, p in cached[v.attr]):
-                src = v.attr
-            if src is None:
-                continue
-            name = a.targets[0].id
+            if isinstance(n, ast.Call) and isinstance(n.func, ast.Attribute) and n.func.attr in cached_call:
+                src = n.func.attr
+            elif isinstance(n, ast.Attribute) and n.attr in cached_prop and isinstance(n.ctx, ast.Load) and \
+                    not (isinstance(getattr(n, "_parent", None), ast.Call) and n._parent.func is n):
+                src = n.attr
+            if src:
+                uses.setdefault(src, []).append(n)
+        if not uses:
+            continue
+        bad = {}
+        for target, node, how in al.mutations(fn):
+            root = al._root(target)
+            st = enclosing_stmt(node)
+            inner = enclosing(node, FuncNode)
+            s2 = al.scope(inner) if inner is not None and inner is not fn else sc
+            src = al.is_alias(root, s2, cached_call, cached_prop, st)
+            if src:
+                bad.setdefault(src, []).append((node, how))
+        for src, nodes in sorted(uses.items()):
             n_sites += 1
-            scope = enclosing(a, FuncNode) or fn
-            bad = None
-            for m in ast.walk(scope):
-                if getattr(m, "lineno", 0) <= a.lineno:
-                    continue
-                if isinstance(m, ast.Call) and isinstance(m.func, ast.Attribute) and isinstance(m.func.value, ast.Name) \
-                        and m.func.value.id == name and m.func.attr in MUTATORS:
-                    bad = m
-                if isinstance(m, (ast.Assign, ast.AugAssign)):
-                    ts = m.targets if isinstance(m, ast.Assign) else [m.target]
-                    for t in ts:
-                        if isinstance(t, ast.Subscript) and isinstance(t.value, ast.Name) and t.value.id == name:
-                            bad = m
-                        if isinstance(m, ast.AugAssign) and isinstance(t, ast.Name) and t.id == name:
-                            bad = m
-                if isinstance(m, ast.Assign) and any(isinstance(t, ast.Name) and t.id == name for t in m.targets):
-                    break  # re-bound
-            ctx.check(rule, a, bad is None, f"{ref.split(':')[1]}: value of cached `{src}` only read",
-                      f"`{name}` holds the object handed out by the cache of `{src}`; `{short(bad, 60) if bad is not None else ''}` "
-                      "mutates it, so every later caller sees the modified value", fn=ref, key=f"{name} <- {src}")
+            b = bad.get(src, [])
+            ctx.check(rule, nodes[0], not b, f"{ref.split(':')[1]}: value of cached `{src}` only read",
+                      f"the object handed out by the cache of `{src}` is mutated in place by `{short(b[0][0], 60) if b else ''}` "
+                      f"({b[0][1] if b else ''}): every later caller sees the modified value", fn=ref, key=f"{ref} <- {src}")
     ctx.floor(rule, "uses of cached mutable values examined", n_sites, 5)
-    # the derivation layer hands out immutable sympy objects
-    for mod in ("groundstate", "intermediate_states", "secular_matrix", "properties"):
-        for q, fn in ctx.model.module(mod).functions.items():
-            if any(d in CACHE_DECOS for d in common.decorators(fn)):
-                ctx.check(rule, fn, not _mutable_return(fn), f"{q}: cached result is an immutable sympy object",
-                          f"{q} caches and returns a mutable container", fn=f"{mod}:{q}", key=f"{q} immutable")
 
 
 def run(ctx):
@@ -483,13 +2309,25 @@ def run(ctx):
         r19h(ctx)
     if ctx.want("R19d"):
         r19d(ctx)
+    if ctx.want("R19e"):
+        r19e(ctx)
     if ctx.want("R19e") or ctx.want("R08c"):
         c08.r08c(ctx)
     if ctx.want("R19a"):
-        r19a(ctx)
-    if ctx.want("R19b"):
-        d4(ctx)
+        r19a_keys(ctx)
+        r19a_sets(ctx)
+    if ctx.want("R19b") or ctx.want("R19f"):
+        r19b(ctx, "quick")
     if ctx.want("R08d"):
         c08.r08d(ctx)
     if ctx.want("R19f"):
         r19f(ctx)
+    if ctx.want("R19i"):
+        r19i(ctx)
+    if ctx.want("R19j"):
+        r19j(ctx)
+
+
+def run_thorough(ctx):
+    if ctx.want("R19b") or ctx.want("R19f"):
+        r19b(ctx, "thorough")
